@@ -12,1741 +12,1859 @@ Definition show_fres (r : fres) : string :=
   end.
 Definition check (rs : list rune) : string := digest (show_fres (format_res rs)).
 Definition full (rs : list rune) : string := show_fres (format_res rs).
-Eval vm_compute in ("<<<M3921>>>" ++ check (runes_of_ascii "options {
-    As = false
-}
-
-packet stringy {
-    @calculatedFrom(""" ++ [128512]%N ++ runes_of_ascii """)
-    @calculatedFrom(""\n"")
-    MetaDataX metadata,
-    @tag(7)
-    u64 packetx,
-    u charz `// not a comment`,
-    @rightPad()
-    repeat i16 As `{ , }`,
-    @rightPad(' ')
-    @lengthOf(uint8x)
-    msg_type {
-        repeat options1 {
-            //	t
-            string body,
-        },
-        repeat int8 T,
-        float32 len,
-        pack {
-            repeat u16 lengthOf `line1
-            line2`,
-            i32 len @lengthOf(MetaDataX) `" ++ [233]%N ++ runes_of_ascii "`,
-            uint8x {
-                BodyLength @lengthOf(x),
-                zchar[255] falsey @lengthOf(Logon) `crlf
-                line`,/// triple
-            },
-            u8x,
-        },/// triple
-    },
-    @lengthOf(matchKey)
-    int,
-}
-
-root packet Packet {
-    uint16 u `a\`,
-    @leftPad('0')
-    repeat msg_type {
-        falsey {
-            repeatCount {
-                uint32 As,
-                char[] repeatCount,
-            },
-        },
-    },
-    @leftPad('0')
-    @tag(3)
-    match calculatedFrom as asx {
-        ""{,}"" : float,
-        1 : MetaDataX,
-        ""\" ++ [233]%N ++ runes_of_ascii """ : _x,
-        10 : string_,
-        0 : lengthOf,
-    },
-    u body,
-    f32 Pad @lengthOf(MetaDataX) `" ++ [28040; 24687; 31867; 22411]%N ++ runes_of_ascii "`,
-    zchar[42] u `{ , }`,
-    @calculatedFrom(""\n"")
-    // c
-    string T @lengthOf(tag) `say ""hi""`,// c
-    @rightPad('0')
-    match body as uint8x {
-        [4294967296, 1, 00, ""x y""] : a1,
-    },
-}
-
-packet a1 {
-    @tag(42)
-    u16 tag @lengthOf(MetaDataX),
-    uint64 int `tab	here`,
-    string float @lengthOf(packetx) `crlf
-    line`,
-    float32 options1 `it's`,
-    @calculatedFrom(""CRC32"")
-    uint8 crc,
-    @tag(1)
-    metadata f32a `" ++ [233]%N ++ runes_of_ascii "`,
-    @rightPad('\x00')
-    @lengthOf(pack)
-    @tag(0123456789)
-    float32 uint8x @lengthOf(u),
-}
-
-root packet i8i8 {
-    match MetaDataX as o {
-        ""// no comment"" : options1,
-        7 : i8i8,
-        [
-            10, ""{,}"", ""// no comment"", """ ++ [128512]%N ++ runes_of_ascii """, ""\n"",
-            ""// no comment"", ""abc""
-        ] : As,
-        [
-            10, 007, 1, ""packet"", ""a\""b"",
-            ""x y"", ""{,}"", ""// no comment""
-        ] : BodyLength,
-    },// `tick` ""quote"" 'q'
-    @tag(42)
-    repeat string x_y_z,
-    f32a @calculatedFrom(""""),
-    match u128 as Z9_ {
-        """ ++ [28040; 24687]%N ++ runes_of_ascii """ : lengthOf,
-        ""\" ++ [233]%N ++ runes_of_ascii """ : string_,
-    },
-    @tag(4294967296)
-    u64 f32a,
-    string roots @calculatedFrom(""\" ++ [233]%N ++ runes_of_ascii """) `// not a comment`,//	t
-}")).
-Eval vm_compute in ("<<<M3667>>>" ++ check (runes_of_ascii "/// triple
-packet options1 {
-    @leftPad('\x00')
-    @rightPad()
-    @rightPad('0')
-    repeat BodyLength {
-        a1 falsey `u8 x,`,
-    },
-    float32 calculatedFrom,
-    match trueish as len {
-        ""a	b"" : Packet,
-        7 : options1,
-        7 : _x,
-        [
-            3, 1, 0123456789, ""`tick`"", """ ++ [128512]%N ++ runes_of_ascii """,
-            """ ++ [28040; 24687]%N ++ runes_of_ascii """, ""{,}"", ""1""
-        ] : pack,
-        ""CRC32"" : i8i8,
-        ""// no comment"" : trueish,
-    },
-    metadata rootA `" ++ [28040; 24687; 31867; 22411]%N ++ runes_of_ascii "`,
-    i32 x_y_z `two words`,
-    repeat i32 x_y_z `" ++ [28040; 24687; 31867; 22411]%N ++ runes_of_ascii "`,
-    @leftPad('0')
-    @leftPad('0')
-    x @calculatedFrom(""\n"") `{ , }`,
-    @tag(1)
-    //
-    repeat u32 asx,
-    u8x @lengthOf(packetx) `two words`,
-}
-
-packet int {
-    zchar[65535] leftPad,
-    @lengthOf(repeatCount)
-    @tag(0123456789)
-    match lengthOf as calculatedFrom {
-        [""a\\""] : trueish,
-        ""x y"" : A,
-        """ ++ [233]%N ++ runes_of_ascii "t" ++ [233]%N ++ runes_of_ascii """ : options1,
-    },
-    string uint8x `it's`,
-    repeat uint16 u8x,
-}
-
-packet zchar {
-    // a // b
-    zchar[255] chars @calculatedFrom(""packet""),
-    match BodyLength as x_y_z {
-        ""\n"" : u128,
-        00 : Packet,
-    },
-    @leftPad('\x00')
-    repeat o {
-        Z9_ @lengthOf(asx),
-    },// trailing space 
-    @calculatedFrom(""" ++ [28040; 24687]%N ++ runes_of_ascii """)
-    repeat u64 trueish,
-    i32 charz,
-    x `tab	here`,
-    string u128 `// not a comment`,
-    len {
-        match chars as Foo {
-            """" : u,
-            ""packet"" : matchKey,
-            ""// no comment"" : packetx,
-            [
-                65535, 0123456789, ""it's"", """ ++ [128512]%N ++ runes_of_ascii """, ""a\\"",
-                ""a\\"", """ ++ [28040; 24687]%N ++ runes_of_ascii """, ""{,}""
-            ] : len,
-            // " ++ [27880; 37322]%N ++ runes_of_ascii "
-            ""\" ++ [233]%N ++ runes_of_ascii """ : msg_type,
-            ""abc"" : o,
-        },
-    },
-    @calculatedFrom("""")
-    match falsey as calculatedFrom {
-        // `tick` ""quote"" 'q'
-        [1, """ ++ [233]%N ++ runes_of_ascii "t" ++ [233]%N ++ runes_of_ascii """] : body,
-        ""`tick`"" : calculatedFrom,
-        3 : x_y_z,
-        ""it's"" : Packet,
-        [007] : Foo,
-        """ ++ [128512]%N ++ runes_of_ascii """ : Foo,
-    },// " ++ [27880; 37322]%N ++ runes_of_ascii "
-    match leftPad as stringy {
-        ""a\\"" : T,
-    },
-}")).
-Eval vm_compute in ("<<<M3966>>>" ++ check (runes_of_ascii "packet i8i8 {
-    @leftPad()
-    u body `
-    `,
-    repeat char[] Z9_,
-    repeat char[1] int,
-    roots {
-        _x @calculatedFrom(""\n""),
-        int {
-            float @lengthOf(packetx),
-        },
-        int8 falsey `a\`,
-        uint16 x_y_z @lengthOf(u128) `two words`,
-    },
-    @tag(007)
-    matchKey {
-        _x,
-    },
-    @leftPad()
-    @lengthOf(chars)
-    i64_ @calculatedFrom(""`tick`"") `" ++ [233]%N ++ runes_of_ascii "`,
-}
-
-packet asx {
-    i32 rootA @calculatedFrom(""a\""b"") `{ , }`,
-}
-
-packet f32a {
-    @leftPad()
-    @calculatedFrom(""// no comment"")
-    repeat zchar[007] string_ `// not a comment`,
-    match Header as pack {
-        [""// no comment"", ""a\""b""] : x,
-        // packet A { u8 x, }
-        [
-            00, 1, 42, ""abc"", ""\n"",
-            """ ++ [233]%N ++ runes_of_ascii "t" ++ [233]%N ++ runes_of_ascii """
-        ] : pack,
-        [255, ""a	b""] : i64_,
-    },
-    options1 roots,
-    int16 o,
-    @rightPad(' ')
-    char[] tag `// not a comment`,
-}
-
-packet roots {
-    uint64 stringy @calculatedFrom(""1"") `two words`,
-    u8x @calculatedFrom(""1"") `tab	here`,
-    repeat o {
-        charz {
-            match metadata as charz {
-                ""a\""b"" : u,
-                [
-                    10, 7, 1, 42, ""packet"",
-                    ""// no comment""
-                ] : lengthOf,
-                ""abc"" : Packet,
-                """ ++ [233]%N ++ runes_of_ascii "t" ++ [233]%N ++ runes_of_ascii """ : crc,
-                1 : x,
-                //	t
-                [
-                    1, 0123456789, """ ++ [28040; 24687]%N ++ runes_of_ascii """, ""// no comment"", ""\n"",
-                    ""1"", """ ++ [233]%N ++ runes_of_ascii "t" ++ [233]%N ++ runes_of_ascii """
-                ] : u,
-            },
-            repeat float32 As,// trailing space 
-        },
-    },
-    //x
-    repeat char[1] x_y_z `line1
-    line2`,
-}")).
-Eval vm_compute in ("<<<M731>>>" ++ check (runes_of_ascii "options
-    { _x =
-    float32
-    ;} packet Packet
-{char[ 255
-]	tag @lengthOf(
-    a1)
-    ,match Packet as lengthOf { [ ""x y"" ,	1
-    ] :metadata,
-[""x y""
-,// @lengthOf(
-0//x
-]  : // `tick` ""quote"" 'q'
-metadata  },@lengthOf(rootA
-) Header matchKey
-, @lengthOf(leftPad)  char[] A `" ++ [233]%N ++ runes_of_ascii "`
-,
-} packet Logon{zchar[1 ]// c
-f32a `{ , }` , i64_ @calculatedFrom( """ ++ [28040; 24687]%N ++ runes_of_ascii """)
-    , @calculatedFrom( """ ++ [128512]%N ++ runes_of_ascii """) @lengthOf( T ) uint16 T
-    @calculatedFrom( ""CRC32""//
-)
-    // packet A { u8 x, }
-    , @tag( 65535 )// trailing space 
-@lengthOf( body ) i8 o @lengthOf(// packet A { u8 x, }
-MetaDataX ) // `tick` ""quote"" 'q'
-`it's` ,match
-    int as falsey {  [ ""// no comment""	,
-255
-/// triple
-//	t
-] :
-MetaDataX , }
-    , }
-root packet msg_type  {	@calculatedFrom(""packet"") MetaDataX f32a `" ++ [233]%N ++ runes_of_ascii "`
-,@calculatedFrom( ""// no comment""
-    ) //
-repeat
-asx u128
-,match
-msg_type as u8x
-    { 255	: T , [ 7 ]
-:metadata , } ,
-@lengthOf( body ) leftPad @calculatedFrom( ""it's"")  ,@leftPad	()metadata msg_type  `crlf
-line` , @tag(
-255 )repeat
-    char[ 00 ] rootA // @lengthOf(
-, match // " ++ [27880; 37322]%N ++ runes_of_ascii "
-f32a as charz{  ""a	b"" : Header } , @lengthOf( options1// `tick` ""quote"" 'q'
-)char[]
-repeatCount  `u8 x,` // @lengthOf(
-,	@lengthOf( o
-// " ++ [128512]%N ++ runes_of_ascii " emoji
-// c
-) float64 crc
-// " ++ [128512]%N ++ runes_of_ascii " emoji
-// packet A { u8 x, }
-@lengthOf( falsey // `tick` ""quote"" 'q'
-)
-,
-} packet	_x {	repeat i64_
-    // c
-    { repeat A{ x_y_z { char[ 1
-// c
-// @lengthOf(
-]Logon
-, } , /// triple
-} , } , } //	t")).
-Eval vm_compute in ("<<<M4133>>>" ++ check (runes_of_ascii "
-root packet  roots {
-    repeat
-
-    rootA`{ , }`,
-
-BodyLength  ,@lengthOf(
-int 
-)
-
-u64  pack	`// not a comment`
-
-    ,chars @lengthOf( crc
-)  // packet A { u8 x, }
-	  ,
-// @lengthOf(
-// `tick` ""quote"" 'q'
-
-tag
-`u8 x,` , match x_y_z as chars {	// " ++ [128512]%N ++ runes_of_ascii " emoji
-  [
-    65535,
-
-    ""x y""// a // b
-		,  10,
-	4294967296
-]
-    : //x
-  repeatCount 
-,
-
-    [
-255
-
-    ]  // @lengthOf(
-  :
-    i8i8
-,
-4294967296:	metadata , [10
-    ,
-""""
-    ,
-
-255,
-0	,""abc""
-    ,
-	10 ] : 
-rootA
-// @lengthOf(
-	  ,[""1"",
-
-""1"" ]
-:
-
-    uint8x,	[
-
-""""
-    ,10
-	// trailing space 
-	]	:
-
-options1 
-, }	, } packet trueish  {  uint16
-	i64_ , 
-}	packet zchar
-	{ Logon
-    { 
-      // " ++ [27880; 37322]%N ++ runes_of_ascii "
-    	// @lengthOf(
-  match
-
-pack
-	as asx {
-[
-    1
-
-, 	 // `tick` ""quote"" 'q'
-10
-	]
-
-:	Logon  ,
-
-    [ 7 ]
-
-: pack,
-[	42,
-
-""// no comment""
-    ,
-    7 
-,
-    00 , 
-65535
-
-    ] 
-:x
-    ,//
-  ""1""
-	:
-uint8x	,  """"
-	:
-	A
-	65535
-:
-
-    u8x} , 
-}
-,x
-`u8 x,`	,
-@tag( 65535
-) string stringy`say ""hi""`
-	,  repeat
-	uint16 leftPad `
-`
-
-    ,	match options1
-as	Foo
-	{ 
-""abc"" :  falsey
-	,	3
-:
-	T
-
-    ,
-
-}
-
-,
-
-    zchar[
-
-4294967296
-] 
-charz
-	@lengthOf(As 
-),i64
-Packet
-	, @lengthOf(  MetaDataX	)
-
-@lengthOf(
-	metadata)
-
-@calculatedFrom(""" ++ [128512]%N ++ runes_of_ascii """
-	)
-	uint8 
-T
-
-@calculatedFrom(  """ ++ [128512]%N ++ runes_of_ascii """
-
-)
-
-    `" ++ [233]%N ++ runes_of_ascii "`
-
-,
-}	// `tick` ""quote"" 'q'
-")).
-Eval vm_compute in ("<<<M4552>>>" ++ check (runes_of_ascii "packet lengthOf {
-    matchKey `doc`,
-    i8i8 {
-        match crc as zchar {
-            [1, 0, 0123456789, 65535, ""abc""] : chars,
-            ""\n"" : uint8x,
-            ""a\""b"" : int,
-            [
-                4294967296, 4294967296, ""`tick`"", ""a	b"", ""a	b"",
-                """", ""a\""b""
-            ] : string_,
-            0123456789 : A,
-            ""packet"" : asx,
-        },
-        char[00] u8x `u8 x,`,
-        u8x {
-            uint32 float @calculatedFrom(""{,}""),
-            //	t
-            // " ++ [128512]%N ++ runes_of_ascii " emoji
-            char[0] zchar,
-        },
-        falsey @calculatedFrom(""" ++ [128512]%N ++ runes_of_ascii """),
-    },
-    @calculatedFrom(""1"")
-    zchar[255] metadata @lengthOf(packetx),
-    Header @calculatedFrom(""CRC32""),
-    // c
-    // trailing space 
-    float @lengthOf(crc) ``,
-    @tag(42)
-    @lengthOf(A)
-    @lengthOf(u128)
-    stringy `" ++ [233]%N ++ runes_of_ascii "`,
-    @leftPad('0')
-    char[4294967296] float,
-    u `" ++ [233]%N ++ runes_of_ascii "`,
-    @lengthOf(falsey)
-    @lengthOf(lengthOf)
-    repeat f32 matchKey `line1
-        line2`,
-}
-
-options {
-    lengthOf = string;
-}
-
-packet falsey {
-    @tag(1)
-    int16 repeatCount @lengthOf(charz) `a\`,
-    repeat u64 MetaDataX `say ""hi""`,
-}
-
-options {
-    x = ""abc""
-}
-
-MetaData BodyLength {
-    zchar[4294967296] zchar,
-}")).
-Eval vm_compute in ("<<<M1024>>>" ++ check (runes_of_ascii "/// triple
-packet string_{ repeat As
-u128 ,
-    @lengthOf( Header  ) i8i8@lengthOf(len )`" ++ [28040; 24687; 31867; 22411]%N ++ runes_of_ascii "` , uint8x { match i8i8
-as// trailing space 
-msg_type
-{ 65535 :
-    Foo	, [ ""abc"" ,	00 ,
-    ""// no comment"" ,0 ,0123456789,
-    ""// no comment"" ]
-// `tick` ""quote"" 'q'
-// " ++ [128512]%N ++ runes_of_ascii " emoji
-:	int,
-""" ++ [128512]%N ++ runes_of_ascii """ : u8x , ""x y"" :x_y_z , 7
-    :
-len , 42 : As // c
-, } , } , @tag(
-    4294967296
-// packet A { u8 x, }
-// packet A { u8 x, }
-)zchar[
-    255
-] repeatCount , repeat int16 x ,u16 Foo `two words` ,repeat char[42 ] f32a ,string msg_type
-    /// triple
-    , @rightPad  (
-    ' ' ) Z9_@calculatedFrom(//
-""it's""	)  ,} packet stringy// packet A { u8 x, }
-{
-    // `tick` ""quote"" 'q'
-    float32 metadata ,}
-packet// @lengthOf(
-body{match leftPad
-as
-falsey { """ ++ [233]%N ++ runes_of_ascii "t" ++ [233]%N ++ runes_of_ascii """ :	len  ,
-} ,
-    // trailing space 
-    @calculatedFrom( ""CRC32""
-    ) f32a { uint32 body @lengthOf(
-    Z9_ ) /// triple
-`line1
-line2` ,
-    // @lengthOf(
-    f64 u `line1
-line2`, trueish @lengthOf( rootA )
-    ,char[ 255
-    ]	u@calculatedFrom( ""a	b""
-// `tick` ""quote"" 'q'
-// @lengthOf(
-) ,
-} , @tag(  42 )
-options1  a1
-    //
-    ,
-    char[]	Z9_	@calculatedFrom( ""\n""// c
-) , }
-//
-")).
-Eval vm_compute in ("<<<M522>>>" ++ check (runes_of_ascii "root packet i64_
-// " ++ [27880; 37322]%N ++ runes_of_ascii "
-// a // b
-{/// triple
-lengthOf {// c
-T	{/// triple
-zchar tag ,match
-//
-// `tick` ""quote"" 'q'
-body
-    //	t
-    as
-    //x
-    falsey{00 :
-BodyLength
-    , [ 10 , 0,""1""	, 0123456789 , ""a\\"" ,""`tick`"",
-    """",
-    4294967296 ]
-    :
-stringy // c
-, // trailing space 
-"""" : // " ++ [128512]%N ++ runes_of_ascii " emoji
-trueish
-, // packet A { u8 x, }
-[""CRC32"" , 00 , 10
-,
-    1  ] :
-int , } , i8 T ,
-    // `tick` ""quote"" 'q'
-    } /// triple
-, msg_type{ int64 u ,
-}
-,match rootA//x
-as i64_ {
-    7
-: uint8x ,} ,
-} ,
-repeat// `tick` ""quote"" 'q'
-calculatedFrom //x
-{
-Pad T,
-    repeatCount
-    int , i16
-    crc @calculatedFrom( ""packet""
-) `` ,
-    match
-// `tick` ""quote"" 'q'
-// packet A { u8 x, }
-u128
-as
-As { """" : crc,
-[ 65535 , 4294967296 , 007
-    ,
-""a	b""
-, 10 // `tick` ""quote"" 'q'
-]
-    : rootA
-, } , } ,
-    zchar[4294967296 ]  u
-,
-repeat uint16
-    string_ `a\`	, } root
-packet A{	match Logon as asx { [	3 ,	""a	b""
-] : MetaDataX ,
-    0
-: lengthOf ,""packet""
-:
-// packet A { u8 x, }
-// " ++ [27880; 37322]%N ++ runes_of_ascii "
-u8x,	255 : repeatCount , [00 ,""""  ] :
-charz
-,
-["""" ]:msg_type, }  ,}
-")).
-Eval vm_compute in ("<<<M1240>>>" ++ check (runes_of_ascii "MetaData lengthOf	{i64 u128
-    // trailing space 
-    ,uint32// trailing space 
-calculatedFrom
-,
-    char[ 00] string_ , }
-root
-    packet falsey{char[] // " ++ [128512]%N ++ runes_of_ascii " emoji
-len `line1
-line2` , @tag(255
-)
-uint8x @lengthOf(
-falsey	)
-,
-    float32 // `tick` ""quote"" 'q'
-len ,  repeat calculatedFrom i64_
-`say ""hi""`
-    ,
-    // c
-    @rightPad (
-    // " ++ [27880; 37322]%N ++ runes_of_ascii "
-    '0'	)
-    char[ 10]
-Logon , } packet rootA // c
-{
-// " ++ [128512]%N ++ runes_of_ascii " emoji
-// a // b
-x { falsey
-    Logon
-    ,
-    trueish@calculatedFrom( ""`tick`"")
-    `// not a comment`
-, uint8x
-    body ,
-    } , @calculatedFrom( ""{,}""
-)@calculatedFrom( ""a\\"" )match //x
-f32a as i8i8 {// " ++ [27880; 37322]%N ++ runes_of_ascii "
-10 :
-matchKey , 1:	packetx , 0123456789 :
-    Header
-,
-    ""it's"" :  i64_ , // packet A { u8 x, }
-0 : pack ,} ,repeat
-uint8x	x_y_z`" ++ [28040; 24687; 31867; 22411]%N ++ runes_of_ascii "`, repeat
-char[
-255 ] string_ ,
-@lengthOf( int ) calculatedFrom , @tag( 4294967296
-) u16 packetx @calculatedFrom(  """ ++ [28040; 24687]%N ++ runes_of_ascii """ ) ,	u128 body`doc` , }
-    root packet	tag {
-//x
-// `tick` ""quote"" 'q'
-i32 A
-// @lengthOf(
-// packet A { u8 x, }
-, }
-    options { }")).
-Eval vm_compute in ("<<<M3630>>>" ++ check (runes_of_ascii "options {
-    StringPrefixLenType = u64;
-    ArrayPrefixLenType = u16;
-    FixedStringPadChar = ' ';
-}
-packet Logon {
-    i32 msgKind,
-    repeat InOrderid65 {
-        u8 pad0,
-    },
-    i8 tag7,
-    @leftPad(' ') char[12] x,
-}
-packet Leg {
-    char[] f1,
-    repeat char[5] Px,
-    InQty34 {
-        repeat char[6] Qty,
-        char[7] seqNo,
-        string count,
-    },
-    Logon,
-}
-packet Party {
-    @leftPad('0') char[10] OrderId,
-    string Tail,
-}
-packet Fill {
-    zchar[5] venue,
-    zchar[3] clOrdID,
-    InRef95 {
-        InLastpx25 {
-            u8 pad0,
-        },
-        float64 OrderId,
-        i32 f1,
-        float32 x,
-        char[] seqNo,
-    },
-    repeat string seqNo,
-}
-root packet Heartbeat {
-    repeat Leg,
-    u32 seqNo,
-    u16 tag7,
-    u32 Flags @lengthOf(Body),
-    match tag7 as Body {
-        [195, 75] : Party,
-        171 : Fill,
-        78 : Logon,
-        142 : Leg,
-    },
-    u32 Note @calculatedFrom(""CRC32""),
-}
-")).
-Eval vm_compute in ("<<<M4594>>>" ++ check (runes_of_ascii "packet uint8x {
-    zchar[007] Header @calculatedFrom(""a	b""),
-}
-
-packet i64_ {
-    @lengthOf(crc)
-    /// triple
-    string metadata `
-    `,// trailing space 
-    uint8x {
-        repeat u16 string_,
-    },// `tick` ""quote"" 'q'
-    packetx {
-        zchar[0123456789] calculatedFrom @calculatedFrom(""" ++ [28040; 24687]%N ++ runes_of_ascii """) `crlf
-        line`,
-        tag {
-            zchar[007] tag @calculatedFrom(""1""),
-            string u,
-            repeat A T,
-            roots @lengthOf(Logon),
-        },
-        u8x ``,
-        int64 metadata `tab	here`,
-    },
-}
-
-packet rootA {
-    @lengthOf(string_)
-    Header A `doc`,
-    match stringy as x {
-        // c
-        0123456789 : metadata,
-        0 : rootA,
-        42 : A,
-        [00, ""abc""] : T,
-        4294967296 : a1,
-        // @lengthOf(
-    },
-    @rightPad('0')
-    @tag(4294967296)
-    @tag(00)
-    char[] Foo @calculatedFrom(""1"") `crlf
-    line`,
-}")).
-Eval vm_compute in ("<<<M1094>>>" ++ check (runes_of_ascii "root
-packet leftPad {match As as
-A {
-00 :i8i8, ""x y"": Packet
-""abc"" :falsey
-// trailing space 
-//x
-,  } , float32 trueish,
-@calculatedFrom( ""1"" ) u64  roots`line1
-line2` // trailing space 
-,
-@tag( 42 //	t
-) string
-int
-    @lengthOf(
-    Header ) , @tag(
-    1 ) @lengthOf( // c
-float) rootA  Z9_,match msg_type as metadata {[ 7 ,	0123456789 ] /// triple
-: uint8x	, [ 255 ]:int ,
-    // @lengthOf(
-    255
-    // trailing space 
-    :  lengthOf , ""a\\""  : u128, ""1"" : // packet A { u8 x, }
-u128
-    , }
-,roots //	t
-int `two words` ,repeat BodyLength asx
-,lengthOf@lengthOf(packetx ) ,@lengthOf(
-a1
-) char[
-    /// triple
-    10
-    ]
-//	t
-//
-x, }
-    options { f32a
-= '0'
-; chars
-    =  ' ';Header= ' ' ; i8i8
-    =zchar[ 007 ]
-; leftPad =
-' '
-    ;
-}packet falsey
-    {	@lengthOf(
-    u8x
-)x@lengthOf(tag
-)
-    // @lengthOf(
-    , }
-")).
-Eval vm_compute in ("<<<M77>>>" ++ check (runes_of_ascii "  options
-{  T
-= ' ' }
-MetaData Pad
-    //x
-    {
-string_ u128  , u64 // @lengthOf(
-uint8x `two words` , int8 repeatCount
-, }
-    packet
-len{
-    Packet
-    `
-`
-,@calculatedFrom( ""a\""b""
-) zchar[
-    42 ]
-rootA ,
-    @calculatedFrom(
-""packet"" )
-@calculatedFrom( ""\n"" ) Packet @calculatedFrom( ""\" ++ [233]%N ++ runes_of_ascii """  )
-    `" ++ [28040; 24687; 31867; 22411]%N ++ runes_of_ascii "`, @leftPad
-    (
-    '\x00' )
-@leftPad (	)
-@rightPad (
-)
-repeat string_
-    {match asx // c
-as rootA {[
-""`tick`"",65535	]:
-falsey ,} , trueish
-, char Z9_`// not a comment` ,
-    Packet Logon `{ , }`, } ,@tag( 1 )
-    match x as pack//	t
-{
-1 :stringy // `tick` ""quote"" 'q'
-, [	42 ]:  x }  ,
-repeat//x
-i8 u8x , @calculatedFrom(""packet"") string_ // c
-@lengthOf( rootA ),	falsey
-@lengthOf( x )
-,} options
-{}
-root packet u { @lengthOf(x_y_z )	u
-    @calculatedFrom( """"
-)
-`two words`, }")).
-Eval vm_compute in ("<<<M1305>>>" ++ check (runes_of_ascii "MetaData Packet{	x_y_z // " ++ [27880; 37322]%N ++ runes_of_ascii "
-lengthOf`tab	here` ,
-rootA  u128 `" ++ [28040; 24687; 31867; 22411]%N ++ runes_of_ascii "`, char[ 10 ]	u8x `say ""hi""`, zchar[ 7 ]	i64_ , } packet charz{ @tag( 0 ) match
-    // `tick` ""quote"" 'q'
-    float as // " ++ [128512]%N ++ runes_of_ascii " emoji
-T{//	t
-""packet"" : i8i8, ""CRC32"" : string_ 65535:
-pack	, // @lengthOf(
-} , i32
-    matchKey @calculatedFrom( ""a\""b"") // `tick` ""quote"" 'q'
-, @tag(
-65535)repeat int {
-match// `tick` ""quote"" 'q'
-u8x as zchar{ ""\" ++ [233]%N ++ runes_of_ascii """ :BodyLength} , }, uint16 roots
-    , @rightPad	(
-' ' )int8 i64_ @calculatedFrom( ""it's"" ) , @tag( 255 )
-repeat rootA {repeat string
-Z9_
-, lengthOf roots `" ++ [233]%N ++ runes_of_ascii "`,zchar @calculatedFrom(""x y""  )	`{ , }`
-    , } ,
-    @tag(
-0 ) calculatedFrom
-Logon , } packet leftPad { uint64 A
-, match  pack as	u
-    { ""`tick`"" :
-f32a""1"" :	i8i8  ""\" ++ [233]%N ++ runes_of_ascii """: A ,} , }")).
-Eval vm_compute in ("<<<M3629>>>" ++ check (runes_of_ascii "
+Eval vm_compute in ("<<<M3659>>>" ++ check (runes_of_ascii "
 options
-{LittleEndian
 
-=	false	;StringPrefixLenType  =  u8;
+    {
 
-ArrayPrefixLenType =
-u8
-	;FixedStringPadFromLeft	=true 
-;
-    FixedStringPadChar =
-' ';
+    ArrayPrefixLenType
+
+= u16
+    ;
+
+    FixedStringPadFromLeft 
+=
+
+    true
+
+    ;JavaPackage = ""com.example.msg""	;
+	GoPackage
+	= ""msg""; GoModule
+	= ""example.com/msg"" ;
+
     }
-    packet Trade{
+MetaData  Meta	{ u32  SeqNum 
+`sequence number`,char[
 
-zchar[
-2 
-] Side2, i8	seqNo ,
-}packet
-    Party{
+    8 ]Symbol
 
-    uint32 price
+    `symbol`
 
-    ,  }packet
-
-Ack 
-{
-@rightPad
-	( '\x00')	char[ 6]
-x  ,repeat char[ 4
-]Flags 
-, zchar[
-
-9 ]
-f1 , } packet
-	Cancel
-
-{Ack , } packet Heartbeat	{
-
-    string
-
-Px , string  Acct,
-	f64
-Side2 
 ,
-	InQty24	{
+zchar[ 5 ]
+    ZSym
+    `z symbol`
+,	string  Note
+,
+    Symbol
+
+AltSymbol `alias of symbol`
+	,
+f64
+Price
+,
+}
+packet
+
+Inner
+    {
+    u8 a  ,i16
+	b ,  string
+c
+,
+    }  packet Inner2 {
+
+u8 
+a2 , char[ 3
+]c2 ,
+
+} packet
+Logon 
+{  u8
+x, 
+string
+
+user
+,	repeat u16  codes
+	,
+} packet  Logout{	u16 reason, }  packet	Empty { 
+}root packet
+
+    Msg 
+{	u8 su8 
+,
+	uint8 
+luint8
+
+    ,
+	u16	su16 ,uint16 luint16,	u32
+
+su32 ,
+
+    uint32  luint32
+
+, u64	su64  ,	uint64 
+luint64,
+	i8 si8  ,	int8	lint8
+
+    ,
 
     i16
-
-    seqNo ,
-repeat	i32
-
-    Flags
-	,}	,
-}
-root
-packet Logon { Trade
-
-    ,  i64 
-venue 
-,
-u32
-    x 
+si16 ,	int16 lint16
 ,
 
-    u8
+    i32 si32
+,
 
-    seqNo	, 
-match	seqNo
-as
+int32
+lint32
 
-Body
-{
-[
-1	,
+    ,	i64
+    si64
+,
+	int64 lint64,
 
-    164
-	] : 
-Ack
+f32 
+sf32
+, float32 
+lfloat32, 
+f64
+sf64 ,	float64
+
+    lfloat64
+	,char[
+6
+	]
+fsplain
+    , @leftPad
+
+    (
+'0' )
+
+    char[
+    4]
+
+fs0
+,
+
+@rightPad
+	(  '0'
+
+)char[5  ]
+    fs1  , 
+@leftPad
+    (
+' '
+	) char[	6
+    ]
+
+    fs2,@rightPad
+	(
+    ' ' )
+char[
+
+    7]
+	fs3 , 
+@leftPad
+(
+'\x00'
+)char[
+
+8 ]  fs4
 
 ,
-	31
-: Cancel ,
-23	:
+	@rightPad
+( '\x00'	)  char[
 
-    Heartbeat ,	64 :	Party
-
-,}
-,}
-
-")).
-Eval vm_compute in ("<<<M4008>>>" ++ check (runes_of_ascii "MetaData body {
-    u16 roots `say ""hi""`,
-    char[65535] o,
-    uint32 Z9_,
-    char trueish `crlf
-        line`,
-}
-
-packet crc {
-    u128,
-    repeat char[] trueish,
-    string asx @lengthOf(zchar) `crlf
-        line`,
-    int {
-        int u,
-    },
-    @tag(10)
-    // @lengthOf(
-    zchar[65535] zchar @calculatedFrom(""" ++ [28040; 24687]%N ++ runes_of_ascii """) `a\`,
-    @rightPad('\x00')
-    string crc @lengthOf(o),
-    match rootA as len {
-        [10, 3, ""\n"", """ ++ [233]%N ++ runes_of_ascii "t" ++ [233]%N ++ runes_of_ascii """, ""packet""] : leftPad,
-        65535 : pack,
-    },
-    zchar[65535] asx `u8 x,`,
-    i16 roots `u8 x,`,
-    @leftPad()
-    f64 Packet,
-}
-
-packet tag {
-    @rightPad('0')
-    repeat char[00] crc,
-}
-
-packet stringy {
-    char[] roots `" ++ [233]%N ++ runes_of_ascii "`,
-}")).
-Eval vm_compute in ("<<<M150>>>" ++ check (runes_of_ascii "packet
-    Header	{	repeat string
-    Header
-,
-repeat options1  ,	zchar[
-    //	t
-    00 ] matchKey ,} options
-// @lengthOf(
-// `tick` ""quote"" 'q'
-{charz= ""\n"" ; // a // b
-BodyLength = ""x y"" u8x
-    = ""x y""
-    u // `tick` ""quote"" 'q'
-= 255 }
-MetaData u8x{
-// a // b
-// c
-Z9_
-i8i8 , float32  stringy , float msg_type // `tick` ""quote"" 'q'
-`doc`
-    ,
-calculatedFrom T , Foo T `a\` , }	root
-    packet
-    roots
-    {	@tag( 00
-) /// triple
-match// `tick` ""quote"" 'q'
-len
-    as roots {
-    // @lengthOf(
-    [ 4294967296 ]
-    : tag ""// no comment"" :float ,"""" : uint8x ,
-// " ++ [27880; 37322]%N ++ runes_of_ascii "
-// trailing space 
-007
-    // " ++ [27880; 37322]%N ++ runes_of_ascii "
-    :
-    options1 , } , }")).
-Eval vm_compute in ("<<<M4456>>>" ++ check (runes_of_ascii "
-
-  packet
-	f32a 
-{
-roots  {
-
-chars	calculatedFrom 
-,  u16
-
-Header  `" ++ [233]%N ++ runes_of_ascii "` 
-    /// triple
-// packet A { u8 x, }
-    , char[] repeatCount , 	 //	t
-	  } , @calculatedFrom(	""x y"")  i32
-    crc @calculatedFrom( ""x y""  ) , repeat	uint64 lengthOf,repeat char[  65535
+    9
 ]
+    fs5,@leftPad
+(
 
-    u
+    )	char[ 
+10 ] fs6
+,
+
+    @rightPad
+(
+    )
+char[
+11
+	]fs7
+	,zchar[
+7
+	]fz
     ,
-	@lengthOf( tag
 
-    ) 
-    // trailing space 
-	//
-      @lengthOf( pack)	@calculatedFrom(  ""packet""
-	)// packet A { u8 x, }
-match 
-A
-as
-f32a { 
-
-// trailing space 
-
-  // c
-
-""`tick`""	:
-    i8i8
-
-, }
-, @tag(
-
-0123456789
-    ) repeat
-repeatCount
-crc
-	,
-repeat
-
-u32
-options1
-
-    `a\` , }  options	{	matchKey
-	=
+@leftPad
+(
 '0'
 
-;	}")).
-Eval vm_compute in ("<<<M877>>>" ++ check (runes_of_ascii "root packet A { @tag( 42	)
-    match // @lengthOf(
-Logon as rootA { 0123456789
-: int } ,
-repeat char[]
-uint8x `crlf
-line`, int {
-// `tick` ""quote"" 'q'
-//
+) zchar[ 
+3] fzl0
+
+,
+string
+
+    s1`doc`, char[]s2, Inner
+
+    , 
+Sub
+    {u8
+
+q,
+string 
+w	,
+	Deep
+    { 
+u16
+z , repeat
+	i32	zs ,  }
+    ,
+}
+
+,
+
+    repeat
+u8 ru8
+	,
+
+    repeat u16
+ru16, repeat u32
+ru32
+,
+
 repeat
-f64 Packet , uint8x  @calculatedFrom(
-    ""1"" ) , string  x `it's` , }	, @lengthOf( Foo )
-@calculatedFrom(""a	b""
-) @lengthOf( body)
-metadata {match	pack as matchKey { ""x y"" : falsey , ""it's"" //
-: Header}	, body {
-char[] len  , /// triple
-} , }
-, char[
-    // a // b
-    0123456789
-    ]	T
-    // " ++ [128512]%N ++ runes_of_ascii " emoji
-    @calculatedFrom(
-    ""`tick`"" )
-    , }options{ len =' '	} MetaData
-As {
-    f64 As , char[ 0123456789 ] x
-,}
-")).
-Eval vm_compute in ("<<<M4257>>>" ++ check (runes_of_ascii "root  packet Pad {@tag(
-    65535
+u64
+ru64
 
-)	@lengthOf( matchKey
-	) //
-  	int32
-pack
+,repeat	i8 ri8
+    ,repeat
+	i16	ri16 ,
+    repeat 
+i32
+ri32
+	, repeat i64 ri64	,repeat
+f32 rf32 ,  repeat  f64 
+rf64  , repeat
+string rstr
 
-    , 	 // `tick` ""quote"" 'q'
-zchar[65535 ] charz @calculatedFrom( """"
-	)
+    ,  repeat  char[]rstr2,repeat
+    char[
 
-    `crlf
-line`  ,
-
-}
-MetaData
-
-options1
-{
-    charz
-
-crc 
-	//
-    // " ++ [27880; 37322]%N ++ runes_of_ascii "
-  ,body
-    packetx
-	`// not a comment`
-
-    ,	} packet	string_	{ char[
-7 	 // @lengthOf(
-  ] T
-
-    @calculatedFrom(
-	""\" ++ [233]%N ++ runes_of_ascii """
-
-    )  // c
-    	,
-@leftPad(
-    '\x00'
-) @calculatedFrom(""packet""
-
-    )
-
-    @tag(
-42
-// " ++ [128512]%N ++ runes_of_ascii " emoji
-
-  // " ++ [128512]%N ++ runes_of_ascii " emoji
-    )
-	string
-	string_
-    @calculatedFrom(""" ++ [28040; 24687]%N ++ runes_of_ascii """
-)
-
-    `a\`
-
-,
-}
-")).
-Eval vm_compute in ("<<<M84>>>" ++ check (runes_of_ascii "MetaData rootA
-    {}
-options{ rootA= '\x00' zchar
-    ='0' rootA= float64 ;  trueish	= 3 i64_
-= float64 ; } options{
-    body
-= '0'
-    ;T= ""CRC32"";matchKey = char[] ; }	packet
-rootA {
-    // " ++ [128512]%N ++ runes_of_ascii " emoji
-    @lengthOf( //
-Z9_)
-    @rightPad('0' ) Packet calculatedFrom , }packet
-body
-    { match metadata
-as asx {
-    3 : Header 3: packetx	, [  10]
-:	Packet, """"
-// " ++ [27880; 37322]%N ++ runes_of_ascii "
-// @lengthOf(
-: pack
-,
-10  :
-    // packet A { u8 x, }
-    pack [  255 // `tick` ""quote"" 'q'
-, // `tick` ""quote"" 'q'
-""""
-    , 00 // a // b
-,""it's""] :
-x } ,
-}
-
-")).
-Eval vm_compute in ("<<<M3965>>>" ++ check (runes_of_ascii "
-root packet 
-        //	t
-    // c
-  charz
-{f32
-	stringy  // @lengthOf(
-  	,	@rightPad 
-( '\x00' )metadata
-{ 
-MetaDataX
-A 
-    // `tick` ""quote"" 'q'
-	  ,}	, repeat
+3]
+rfs
+, repeat
 
 zchar[
 
-0  /// triple
-      ] u8x,@calculatedFrom( // @lengthOf(
-	""it's""
-)  match  trueish
+    3 ] rfz  ,repeat Inner2 
+, repeat Grp
+    {u8	k
+	,
 
-as
-	u128 {
-""{,}"":  stringy	} ,
+    char[
+2 
+]
 
-    }packet
-	Packet{ 
-char[
-3
-    ]
-	int @calculatedFrom(
+    v, 
+}
+    , SeqNum ,	SeqNum	seq2,
 
-""x y"" )
-,}
-MetaData Packet	{ u128
-trueish
-	`" ++ [28040; 24687; 31867; 22411]%N ++ runes_of_ascii "`
-
-, int8
-pack 
+repeat 
+SeqNum
+seqs,
+    Symbol 
 ,
-    // packet A { u8 x, }
-	zchar[00	//x
 
-	]	repeatCount`a\` ,  
-      // c
-		}
+AltSymbol
+	alt,
 
-")).
-Eval vm_compute in ("<<<M706>>>" ++ check (runes_of_ascii "packet  o
-    { chars  {
-// `tick` ""quote"" 'q'
-//
-repeat  options1 {repeat lengthOf packetx , }
-, repeat
-a1	,	} , repeat leftPad , } // packet A { u8 x, }
-packet
-float{ f64	string_ @lengthOf( float
-) , repeat
-f64
-uint8x , @tag(1 )
-    packetx{ i32 asx,}
-// `tick` ""quote"" 'q'
-// a // b
-, i64_ @lengthOf(
-    u128
-) `u8 x,` ,
-    asx // trailing space 
-{ string calculatedFrom	`u8 x,`
-, uint8 falsey @calculatedFrom( ""x y""
-),
-} , int32 Header
-, }
-//
-/// triple
-MetaData u8x { }
-")).
-Eval vm_compute in ("<<<M4014>>>" ++ check (runes_of_ascii "options {
-    As = u16
-    body = char[]
+    ZSym
+
+    ,
+
+    Note ,
+
+repeat	Symbol
+syms
+
+, Price	px , 
+u16  MsgType
+
+,
+    u32
+
+    BodyLen
+@lengthOf( 
+Body )  ,
+match
+	MsgType	as
+Body
+
+{ 1
+
+:
+
+Logon
+,
+
+[ 2
+
+    , 3
+
+]
+:
+Logout
+	,	7
+
+    : Logon
+    ,
+    9
+: Empty
+
+    ,
+    } ,u32  Checksum
+
+@calculatedFrom(""CRC32""	)
+,
+    }")).
+Eval vm_compute in ("<<<M4516>>>" ++ check (runes_of_ascii "root packet packetx {
+    char[] pack @lengthOf(string_) `doc`,
+    u32 float @lengthOf(a1) `two words`,
+    match a1 as o {
+        7 : _x,
+    },
+    repeat msg_type {
+        o uint8x `crlf
+        line`,
+    },
+    char[] u8x @lengthOf(msg_type),
+    @calculatedFrom(""CRC32"")
+    i16 repeatCount @calculatedFrom(""a\""b""),
+    zchar[10] _x `line1
+    line2`,
+    zchar[10] x `u8 x,`,
+    char[0123456789] uint8x,
+    @calculatedFrom(""x y"")
+    int32 i8i8,
 }
 
-MetaData options1 {
-    zchar[1] T `{ , }`,
-    stringy BodyLength,
-    uint16 matchKey,
-    char[255] _x,
-    o o `a\`,
+options {
+    matchKey = ""it's""
+}
+
+packet msg_type {
+    // trailing space 
+    //
+    match lengthOf as Logon {
+        [
+            ""x y"", ""a	b"", ""{,}"", """ ++ [28040; 24687]%N ++ runes_of_ascii """, ""{,}"",
+            ""{,}""
+        ] : asx,
+        [""" ++ [233]%N ++ runes_of_ascii "t" ++ [233]%N ++ runes_of_ascii """] : trueish,
+        255 : Pad,
+        [
+            ""`tick`"", ""{,}"", 4294967296, 4294967296, ""a\""b"",
+            ""\" ++ [233]%N ++ runes_of_ascii """, 0123456789
+        ] : u128,
+        ""it's"" : pack,
+        ""abc"" : o,
+    },
+    f32 zchar `it's`,
+    @calculatedFrom(""a	b"")
+    zchar[1] msg_type @calculatedFrom(""it's""),
+    @calculatedFrom(""packet"")
+    BodyLength {
+        i16 _x `{ , }`,
+        i8 body `crlf
+        line`,
+    },
+    repeat i64 uint8x `say ""hi""`,// c
 }
 
 packet chars {
-    f32a {
-        repeat a1,
-        repeat charz x_y_z,
-        asx,
-        rootA len `crlf
-        line`,
-    },// " ++ [27880; 37322]%N ++ runes_of_ascii "
-}
-
-root packet Header {
-    string float `
-    `,//	t
-}
-
-options {
-    T = false
-    options1 = ""packet""
-    matchKey = zchar[00];
-    string_ = false;
-}")).
-Eval vm_compute in ("<<<M946>>>" ++ check (runes_of_ascii "MetaData	asx { u32
-asx
-    ,
-//
-// a // b
-roots Packet
-    // " ++ [128512]%N ++ runes_of_ascii " emoji
-    , }
-root packet
-pack{ // @lengthOf(
-len @calculatedFrom(""// no comment"" )
-    , match pack as leftPad { [007] // `tick` ""quote"" 'q'
-:	crc
-    //	t
-    ,10 :
-    tag
-    ,7 : packetx
-    ,
-""" ++ [28040; 24687]%N ++ runes_of_ascii """ : stringy ,
-65535
-:
-    i64_ ,1
-: MetaDataX ,
-}	, zchar[
+    match x as options1 {
+        3 : tag,
+        10 : repeatCount,
+        [65535] : len,
+        255 : tag,
+        00 : BodyLength,
+    },
+    @calculatedFrom(""{,}"")
+    MetaDataX,
+    @tag(0)
+    repeat stringy len,//	t
+    @calculatedFrom(""a	b"")
     /// triple
-    4294967296 ] chars @calculatedFrom(
-    //	t
-    ""\n""
-// `tick` ""quote"" 'q'
+    zchar[0123456789] lengthOf @lengthOf(A) `u8 x,`,
+    @lengthOf(falsey)
+    T `// not a comment`,
+    i8i8,
+    Logon {
+        match crc as BodyLength {
+            ""1"" : trueish,
+            // " ++ [27880; 37322]%N ++ runes_of_ascii "
+            ""a\""b"" : matchKey,
+            [""x y""] : tag,
+            // trailing space 
+            // " ++ [128512]%N ++ runes_of_ascii " emoji
+        },
+        float @calculatedFrom(""" ++ [233]%N ++ runes_of_ascii "t" ++ [233]%N ++ runes_of_ascii """) `line1
+        line2`,
+        msg_type @lengthOf(i8i8),
+        calculatedFrom uint8x `tab	here`,
+        // a // b
+        //	t
+    },
+}")).
+Eval vm_compute in ("<<<M3997>>>" ++ check (runes_of_ascii "packet crc {
+    Logon {
+        u64 Z9_ @lengthOf(A),
+        f64 int,//
+        match BodyLength as MetaDataX {
+            """ ++ [28040; 24687]%N ++ runes_of_ascii """ : msg_type,
+            00 : falsey,
+            00 : tag,
+            ""it's"" : options1,
+            007 : len,
+            65535 : falsey,
+        },
+        repeat char[] int,//x
+    },
+}
+
+root packet repeatCount {
+}
+
+packet BodyLength {
+    stringy {
+        len `
+        `,
+    },
+    repeat i32 int,
+    match Foo as crc {
+        0 : i8i8,
+        3 : chars,
+    },
+    repeat x {
+        zchar[007] chars,
+        repeat chars {
+            repeat stringy {
+                x_y_z u128,
+                string options1 `two words`,
+                char[0123456789] body `crlf
+                line`,
+                repeat int32 i64_,
+            },
+            char[42] crc,
+            Pad `tab	here`,
+            f32a {
+                lengthOf f32a,
+            },
+        },
+    },
+    i8 stringy,
+    f32a {
+        match body as body {
+            ""\" ++ [233]%N ++ runes_of_ascii """ : u128,
+        },
+        repeat string len `a\`,
+        repeat As asx `it's`,
+    },
+}
+
+MetaData rootA {
+    //
+    //
+    metadata metadata,
+    A _x,
+    u T,
+    char[3] a1 `line1
+    line2`,
+    zchar[4294967296] packetx `{ , }`,
+    string Logon `" ++ [233]%N ++ runes_of_ascii "`,
+}
+
+packet BodyLength {
+    @calculatedFrom(""\n"")
+    int8 a1 @lengthOf(falsey),//
+    @calculatedFrom(""\" ++ [233]%N ++ runes_of_ascii """)
+    @tag(0123456789)
+    lengthOf,
+    @tag(007)
+    //
+    match Logon as f32a {
+        0 : zchar,
+    },
+    @lengthOf(i8i8)
+    match options1 as string_ {
+        [
+            ""a\""b"", 00, 4294967296, 4294967296, ""a	b"",
+            1
+        ] : A,
+    },
+}")).
+Eval vm_compute in ("<<<M766>>>" ++ check (runes_of_ascii "
+packet Packet {
+@tag( 10 // a // b
+) match trueish as x_y_z
+{ ""it's"" : i8i8 ,
 // " ++ [27880; 37322]%N ++ runes_of_ascii "
-) ,
+// " ++ [27880; 37322]%N ++ runes_of_ascii "
+00: asx } , zchar[ 007] u
+@calculatedFrom( ""`tick`"")`line1
+line2`  ,
+    /// triple
+    chars @calculatedFrom( """"),
+    match
+    zchar
+as _x
+{00 : rootA
+""\" ++ [233]%N ++ runes_of_ascii """: metadata
+// c
+// trailing space 
+,	}
+// a // b
+//
+, body
+    {
+    u32 u128 @calculatedFrom( ""{,}"" ) , repeat char[
+    //x
+    4294967296	]u `say ""hi""` ,
+} // c
+,
+    @lengthOf(stringy
+    ) float
+{string//x
+leftPad, repeat	uint16 Pad ,char u // @lengthOf(
+, // " ++ [128512]%N ++ runes_of_ascii " emoji
+i8i8 u ,
+    } ,	match o as
+x
+    {  [ ""`tick`"" ,
+""1"" , 10 ,
+//
+// c
+1 , 00, 0 , 255] :uint8x//
+, 0 : T , //
+1 :trueish 1
+: rootA, } // @lengthOf(
+, zchar[ //	t
+255 ] T`line1
+line2` , @leftPad ( '0' // c
+) @leftPad
+( '\x00')
+@tag(	007 ) match T
+as
+    u8x{ [ 007
+]
+: A , 0 :x,[ 4294967296 ] :
+charz,"""" : As //
+, 7
+    :// `tick` ""quote"" 'q'
+int ,
+65535: x_y_z
+,
+    }, // trailing space 
+} options{ /// triple
+x
+= '\x00' ; // packet A { u8 x, }
+}
+    // " ++ [128512]%N ++ runes_of_ascii " emoji
+    root packet i64_ {  @tag(4294967296  ) falsey options1// `tick` ""quote"" 'q'
+, uint64 Pad `doc` , @tag(
+65535 )
+    char
+// " ++ [128512]%N ++ runes_of_ascii " emoji
+/// triple
+Logon @calculatedFrom(
+    """"
+// @lengthOf(
+// c
+)
+    ,char[ 0 // @lengthOf(
+]MetaDataX `a\` /// triple
+, //
+metadata f32a `tab	here` , stringy Header ,
+    @leftPad () //x
+@calculatedFrom(// c
+""\" ++ [233]%N ++ runes_of_ascii """ ) @calculatedFrom(""" ++ [128512]%N ++ runes_of_ascii """ )
+    char[] body @calculatedFrom( ""a	b"" )	`a\` , }")).
+Eval vm_compute in ("<<<M3973>>>" ++ check (runes_of_ascii "// `tick` ""quote"" 'q'
+root packet As {
+}
+
+packet x_y_z {
+    @rightPad()
+    @tag(42)
+    @rightPad(' ')
+    repeat f32a charz,
+    match Header as stringy {
+        [1, 4294967296] : rootA,
+        0123456789 : x_y_z,
+        [65535, 255] : metadata,
+        [7, """ ++ [233]%N ++ runes_of_ascii "t" ++ [233]%N ++ runes_of_ascii """, ""{,}"", ""{,}""] : T,
+        ""packet"" : chars,
+        // trailing space 
+        [42, 00] : Logon,
+    },
+    repeat i8i8 {
+        tag @calculatedFrom(""" ++ [128512]%N ++ runes_of_ascii """) `{ , }`,
+    },
+    Z9_ @lengthOf(Packet),
+    // trailing space 
+    lengthOf,
+    trueish {
+        zchar[007] packetx,
+        zchar[0123456789] MetaDataX `// not a comment`,
+        rootA @lengthOf(Z9_) `" ++ [233]%N ++ runes_of_ascii "`,
+    },
+}
+
+root packet u8x {
+    float64 len @calculatedFrom(""packet""),
+    u8 calculatedFrom,
+    @calculatedFrom(""a\""b"")
+    @calculatedFrom(""\n"")
+    // trailing space 
+    @lengthOf(Foo)
+    Logon @lengthOf(i8i8),// trailing space 
+    @calculatedFrom(""a\\"")
+    falsey @calculatedFrom(""" ++ [233]%N ++ runes_of_ascii "t" ++ [233]%N ++ runes_of_ascii """) `line1
+    line2`,
+    @leftPad('\x00')
+    // c
+    match i64_ as i64_ {
+        [0123456789] : a1,
+        [""1"", 3, 3, 7, 0] : string_,
+        """" : i64_,
+    },
+    @lengthOf(As)
+    // packet A { u8 x, }
+    T {
+        zchar[0] roots @lengthOf(options1),/// triple
+        u16 pack,//
+    },/// triple
+    string x `crlf
+    line`,
+}")).
+Eval vm_compute in ("<<<M3936>>>" ++ check (runes_of_ascii "packet packetx {
+    stringy {
+        repeat matchKey {
+            match falsey as matchKey {
+                0123456789 : float,
+                [""abc""] : u128,
+                // " ++ [27880; 37322]%N ++ runes_of_ascii "
+                // " ++ [128512]%N ++ runes_of_ascii " emoji
+                ""x y"" : i8i8,
+            },
+            match falsey as Foo {
+                65535 : trueish,
+            },
+        },
+        char[] roots @calculatedFrom(""" ++ [28040; 24687]%N ++ runes_of_ascii """),
+        zchar[0123456789] i64_,
+        zchar[42] MetaDataX @lengthOf(len),
+    },
+    pack @lengthOf(crc),
+    @tag(65535)
+    @leftPad()
+    @lengthOf(asx)
+    u8x {
+        repeat uint64 Pad,
+        x_y_z _x `
+                `,
+    },
+    MetaDataX stringy,
+    // trailing space 
+    @lengthOf(BodyLength)
+    string calculatedFrom @calculatedFrom(""\n"") `line1
+        line2`,
+    u32 u8x,
+    @tag(007)
+    //
+    //
+    @lengthOf(asx)
+    repeat uint8x {
+        match float as As {
+            [
+                ""1"", """", 255, 255, 007,
+                ""1""
+            ] : rootA,
+            ""1"" : msg_type,
+            65535 : f32a,
+            ""x y"" : leftPad,
+        },
+    },
+    u8 asx `u8 x,`,
+    len `it's`,
+}
+
+//x
+/// triple
+options {
+    falsey = true
+}")).
+Eval vm_compute in ("<<<M1254>>>" ++ check (runes_of_ascii "options{ o = u8
+    ; pack = true ; x = string
+// @lengthOf(
+// `tick` ""quote"" 'q'
+} packet i64_// packet A { u8 x, }
+{ @tag( 42
+    /// triple
+    )	@tag( 10
+)	@lengthOf(len )
+    match i8i8 as int // a // b
+{ [
+""""
+,007 , ""abc""
+    ,
+00 , 255
+, 00	,
+    """ ++ [28040; 24687]%N ++ runes_of_ascii """]
+    : MetaDataX ,
+    10: _x , 4294967296 :BodyLength
+    ,
+    ""packet"" : len // packet A { u8 x, }
+,""a	b""	: float , 10
+    : f32a
+}
+, zchar  `// not a comment`/// triple
+, u64 BodyLength	, @leftPad
+    /// triple
+    (
+)@calculatedFrom( ""abc""
+    ) match
+Foo as //
+T {
+    [
+    10
+,""a	b"" ,	0123456789,
+""it's""	, 3 ] :	pack ,  [ 3 ,
+""CRC32"",
+""it's""
+, // @lengthOf(
+""CRC32"" ,
+""CRC32""
+    ] :
+crc , // c
+""packet"" : //
+msg_type ,
+}
+    ,
+string_ o
+    , @leftPad( ) char[] Header//	t
+`{ , }`
+    ,
+@tag(  007)
+    @lengthOf(  u128)
+pack
+    f32a , // packet A { u8 x, }
+repeat tag{ repeat
+As
+    {
+trueish,	}
+,
+repeat
+    trueish { zchar[ 65535 ]stringy	,
+    // " ++ [27880; 37322]%N ++ runes_of_ascii "
+    }, zchar[ 65535]repeatCount// packet A { u8 x, }
+, repeat u8 stringy , }  ,
+} MetaData _x {string	o `" ++ [28040; 24687; 31867; 22411]%N ++ runes_of_ascii "`,matchKey trueish ,}
+options
+    { Packet=
+' ' ; }
+")).
+Eval vm_compute in ("<<<M705>>>" ++ check (runes_of_ascii "packet
+As // trailing space 
+{
+match asx as Header {  10
+:Packet ""abc""	:u ,
+    42
+:Header , [ ""a	b"" ,
+    255,42
+    ] // trailing space 
+:  leftPad 00 : int  , [ ""x y"",
+7] : packetx
+    , } , repeat zchar[
+007
+]options1
+, body // @lengthOf(
+MetaDataX
+    // " ++ [27880; 37322]%N ++ runes_of_ascii "
+    ,
+    @leftPad
+()
+string x_y_z ,
+    @lengthOf(x )
+@rightPad	('0' )match
+    T as tag { ""CRC32""
+:
+    stringy  ,00://x
+packetx [
+    // `tick` ""quote"" 'q'
+    255	,""packet"" // a // b
+]: A
+    , [ 255 ,
+//x
+//	t
+1
+//	t
+// @lengthOf(
+,
+    // @lengthOf(
+    ""abc"" , 1
+// " ++ [27880; 37322]%N ++ runes_of_ascii "
+//	t
+,
+""1"" , """ ++ [233]%N ++ runes_of_ascii "t" ++ [233]%N ++ runes_of_ascii """ , 10 , // packet A { u8 x, }
+00] : i8i8
+    ""\n"" // a // b
+:
+_x,
+    } ,MetaDataX {match trueish as uint8x { 1
+:x , 3
+:
+    a1 , ""a\""b"" : u128 ,  },
+} , float64 calculatedFrom @calculatedFrom( """ ++ [28040; 24687]%N ++ runes_of_ascii """
+//	t
+//x
+) // c
+`u8 x,`	,u64
+    float @lengthOf( // " ++ [128512]%N ++ runes_of_ascii " emoji
+matchKey ), }options
+{ metadata
+= //x
+""{,}""//
+a1 =
+    u8 ;
+falsey=  1 ; _x =
+zchar[65535 ] Header =	' ' }
+    MetaData T {
+} MetaData Z9_{  string
+// " ++ [27880; 37322]%N ++ runes_of_ascii "
+//	t
+f32a
+,
+len zchar
+    ,
     }
 ")).
-Eval vm_compute in ("<<<M173>>>" ++ check (runes_of_ascii "MetaData T  {
-char[] metadata ,
-    // `tick` ""quote"" 'q'
-    i8
-Header
-    //	t
+Eval vm_compute in ("<<<M192>>>" ++ check (runes_of_ascii "//x
+packet	u8x { @lengthOf(  As
+    )
+repeat char[ // c
+4294967296
+]
+    int `{ , }` ,repeat
+    // " ++ [128512]%N ++ runes_of_ascii " emoji
+    int8 len
+`two words` , }root packet tag// a // b
+{} root packet rootA { o@calculatedFrom(""""
+    ) ,leftPad i64_ `it's`
+// a // b
+// packet A { u8 x, }
+, // " ++ [27880; 37322]%N ++ runes_of_ascii "
+@tag( 7 )
+    float ,	int32 x_y_z, repeat roots { zchar[ 10 ]
+    a1 ,
+    f32a
+    options1
+    `crlf
+line` , match _x
+    // @lengthOf(
+    as
+zchar {	1 : u8x ,""// no comment"" : float,	[4294967296, 10 ,""" ++ [233]%N ++ runes_of_ascii "t" ++ [233]%N ++ runes_of_ascii """ , """ ++ [28040; 24687]%N ++ runes_of_ascii """
+, 1 ] :u128 // trailing space 
+,
+    [ ""\" ++ [233]%N ++ runes_of_ascii """ ,//x
+42 // " ++ [128512]%N ++ runes_of_ascii " emoji
+] :	stringy
     ,
-u128 chars `a\` , char[
-    42
-] calculatedFrom
-, } // packet A { u8 x, }
-packet stringy {
-    @rightPad( // c
-)
+[ 1 // " ++ [27880; 37322]%N ++ runes_of_ascii "
+,""\n""
+]:falsey
+    // a // b
+    , } ,  string  charz  @calculatedFrom( """" ) ,
+    }
+,	char[]	options1
+    `
+`
+,
+//	t
+/// triple
+u8x{ repeat msg_type	matchKey `u8 x,` , } , A
+@lengthOf( //x
+pack
+    ) //	t
+, i64
+stringy ,
+}
+packet i8i8{ i64_
+u128
+,@lengthOf( u8x//
+) repeat
+float64 f32a ,@calculatedFrom(
+    ""`tick`"" ) pack
+`" ++ [233]%N ++ runes_of_ascii "` ,
+uint64 Z9_ @calculatedFrom("""" ) `tab	here` , }
+")).
+Eval vm_compute in ("<<<M735>>>" ++ check (runes_of_ascii "  root packet Packet{ @lengthOf( u128 ) match Foo
+    as metadata{[ """ ++ [28040; 24687]%N ++ runes_of_ascii """, ""a	b"" ] :Z9_ ""packet""
+: metadata	,[
+    0123456789 , 10 ,
+    // @lengthOf(
+    ""1"" , ""1""
+    /// triple
+    , 4294967296	,""it's"" ,
+    ""`tick`"" , ""{,}""]:
+As ,
+0 : repeatCount } , match rootA	as  zchar { 7
+    // `tick` ""quote"" 'q'
+    : // `tick` ""quote"" 'q'
+Logon
+    ,""a\\"" :
+body""" ++ [128512]%N ++ runes_of_ascii """
+: T// a // b
+, [ ""1""
+,
+""a\\"" , 65535
+    ,
+""" ++ [233]%N ++ runes_of_ascii "t" ++ [233]%N ++ runes_of_ascii """ ,	""x y"" // c
+, 3 // c
+]
+// a // b
+// trailing space 
+:
+/// triple
+// trailing space 
+len // trailing space 
+,""" ++ [128512]%N ++ runes_of_ascii """
+: o , }  ,  @lengthOf( options1 ) A @calculatedFrom(
+""a\""b"" )`" ++ [233]%N ++ runes_of_ascii "`
+, /// triple
+@rightPad
+    ( // c
+)  u64 i8i8 @calculatedFrom(""{,}"" ) `// not a comment`, repeat pack
+{ char[] MetaDataX
+, } , @lengthOf(
+// c
+// " ++ [128512]%N ++ runes_of_ascii " emoji
+roots ) // packet A { u8 x, }
+@lengthOf(	msg_type )
+@calculatedFrom( ""// no comment"" ) char[ 3 ]
+string_@lengthOf(
+    pack
+    ) // " ++ [27880; 37322]%N ++ runes_of_ascii "
+`doc` , }
+// `tick` ""quote"" 'q'
+")).
+Eval vm_compute in ("<<<M256>>>" ++ check (runes_of_ascii "packet
+Pad // " ++ [27880; 37322]%N ++ runes_of_ascii "
+{ @tag(	65535 )repeat char[
     //	t
-    string trueish
-`two words`, } MetaData metadata{ zchar[//
-007]x_y_z
-, zchar[ 10 ] u	`// not a comment`
-    , string u8x, char[]repeatCount// " ++ [128512]%N ++ runes_of_ascii " emoji
-, zchar Pad ,u32 f32a
-    `doc`
-, } // `tick` ""quote"" 'q'")).
-Eval vm_compute in ("<<<M4425>>>" ++ check (runes_of_ascii "MetaData Header {
-    int64 zchar `u8 x,`,
-    Header u8x,
-    zchar[65535] u,
-    A options1 `it's`,
-    zchar[007] MetaDataX,
-    zchar[0] As,
+    4294967296 ] o
+    `u8 x,`  ,
+@calculatedFrom(""x y"" )
+metadata // c
+@lengthOf(repeatCount )`tab	here`	,} packet u128 {
+// packet A { u8 x, }
+// " ++ [128512]%N ++ runes_of_ascii " emoji
+repeat // " ++ [128512]%N ++ runes_of_ascii " emoji
+zchar[
+10 ]_x// " ++ [27880; 37322]%N ++ runes_of_ascii "
+, /// triple
+}
+options
+{ /// triple
+msg_type
+= true ;}packet tag {// c
+@tag(7 ) i32
+f32a @lengthOf( u8x)
+`two words`
+,
+string
+Foo  @lengthOf( Foo ) ,
+@rightPad(
+'0' ) match As as
+// @lengthOf(
+// `tick` ""quote"" 'q'
+crc // a // b
+{"""": float , //	t
+} , repeat i16 i8i8 , @rightPad/// triple
+(
+    '0' ) repeat u128
+    { i64 tag
+@calculatedFrom( """ ++ [28040; 24687]%N ++ runes_of_ascii """ ) ,i8i8
+@calculatedFrom( // " ++ [27880; 37322]%N ++ runes_of_ascii "
+""{,}""
+)`it's` , repeat string
+    rootA /// triple
+, }, repeat string
+chars,
+    asx, match calculatedFrom as
+calculatedFrom {
+    ""a\""b"" :  Logon ""a	b"" : asx } , char zchar @calculatedFrom( ""1""
+    )
+    `say ""hi""`
+    ,  }
+")).
+Eval vm_compute in ("<<<M4387>>>" ++ check (runes_of_ascii "packet A {
+    calculatedFrom @lengthOf(zchar) `say ""hi""`,
+    @calculatedFrom(""{,}"")
+    repeat u8x uint8x `u8 x,`,
+    match o as matchKey {
+        [3, """"] : T,
+        //
+        ""{,}"" : calculatedFrom,
+    },
+    repeat char[255] u,
+    char[] Packet,
+    repeat int64 packetx,
+    @leftPad('\x00')
+    @calculatedFrom("""")
+    zchar {
+        // trailing space 
+        f32 zchar `" ++ [28040; 24687; 31867; 22411]%N ++ runes_of_ascii "`,
+        match u128 as options1 {
+            [
+                ""abc"", 10, 65535, 0, ""\n"",
+                """ ++ [128512]%N ++ runes_of_ascii """, 0123456789
+            ] : chars,
+            00 : As,
+            ""a	b"" : packetx,
+            10 : a1,
+            // packet A { u8 x, }
+        },
+    },
+    float64 calculatedFrom @lengthOf(packetx),
+    char[00] string_ `
+        `,
+    @calculatedFrom(""it's"")
+    @leftPad()
+    f32 BodyLength,
+}
+// " ++ [27880; 37322]%N)).
+Eval vm_compute in ("<<<M3910>>>" ++ check (runes_of_ascii "options {
+    metadata = ""a\""b"";
+    int = true;
+    chars = '\x00';
+    string_ = '\x00';
+}
+
+packet x {
+    match As as tag {
+        1 : zchar,
+        ""a	b"" : len,
+    },
+    Pad i64_,// " ++ [27880; 37322]%N ++ runes_of_ascii "
+    @tag(3)
+    leftPad {
+        // trailing space 
+        body,
+    },
+    char[] i8i8 `{ , }`,
+    charz {
+        repeat u16 zchar `two words`,
+    },
+    int64 Z9_ @calculatedFrom(""a\\""),
+    @rightPad('\x00')
+    metadata @lengthOf(i64_),
+    @lengthOf(int)
+    u32 u128,// packet A { u8 x, }
+    @tag(10)
+    // " ++ [27880; 37322]%N ++ runes_of_ascii "
+    // " ++ [128512]%N ++ runes_of_ascii " emoji
+    @rightPad('\x00')
+    //
+    @tag(007)
+    float {
+        int32 Pad `" ++ [233]%N ++ runes_of_ascii "`,
+        i16 options1 ``,
+        repeatCount,
+        chars @lengthOf(pack),
+    },
+    repeat int {
+        zchar[10] u `two words`,
+        i64 Logon,
+    },
+}")).
+Eval vm_compute in ("<<<M835>>>" ++ check (runes_of_ascii "
+MetaData crc  {
+} packet options1
+{ u32 int@lengthOf(
+int), @leftPad
+    /// triple
+    ( '\x00' )  repeat string uint8x
+,
+@lengthOf(
+    T )
+zchar trueish , @leftPad( )
+int32 // a // b
+i8i8 @lengthOf( u8x
+    // " ++ [27880; 37322]%N ++ runes_of_ascii "
+    ),
+// c
+// " ++ [27880; 37322]%N ++ runes_of_ascii "
+repeatCount@calculatedFrom( ""x y"" )
+    ,
+    Logon	falsey ,}options {
+int
+= ""\n"" //	t
+len=true ; _x= char
+As =	int16
+    ; }packet Z9_ { repeat rootA
+    , @lengthOf( a1 )  string_
+trueish
+    `" ++ [233]%N ++ runes_of_ascii "` ,
+int8	Foo , @tag(
+007) repeat falsey`// not a comment` /// triple
+, @tag(  0
+)f64 x @calculatedFrom( ""a\\""
+    // c
+    ) `// not a comment` , // `tick` ""quote"" 'q'
+uint64
+Header
+,
+u8 charz	@calculatedFrom( """ ++ [128512]%N ++ runes_of_ascii """) `" ++ [28040; 24687; 31867; 22411]%N ++ runes_of_ascii "` , i32 As @lengthOf(
+a1) `{ , }` , @calculatedFrom(
+    ""a	b"")
+uint16 x ,
+}
+")).
+Eval vm_compute in ("<<<M1262>>>" ++ check (runes_of_ascii "packet float{	x // " ++ [128512]%N ++ runes_of_ascii " emoji
+{ u128 @calculatedFrom( ""it's"" ) `line1
+line2` , } ,  match
+    packetx as roots
+{ """"
+    :
+body ,
+    007 : // " ++ [128512]%N ++ runes_of_ascii " emoji
+MetaDataX 7 //
+:
+stringy , 00: u8x,
+1
+    : lengthOf
+    ,  } , }packet asx
+{ match x
+as  repeatCount
+// " ++ [27880; 37322]%N ++ runes_of_ascii "
+//	t
+{
+// packet A { u8 x, }
+// a // b
+0
+:  float ,
+    // " ++ [27880; 37322]%N ++ runes_of_ascii "
+    },
+    charz
+    ,@tag( 0 ) @calculatedFrom( ""\" ++ [233]%N ++ runes_of_ascii """ )
+    // @lengthOf(
+    @lengthOf( asx ) falsey
+    //
+    roots
+,
+repeat u32	BodyLength // packet A { u8 x, }
+`line1
+line2`, //	t
+@rightPad(
+'\x00'
+) repeat
+zchar
+{u64 x_y_z
+`line1
+line2` , }  , // c
+@lengthOf(
+i64_ )@lengthOf(Header
+)
+@tag(1 )u8
+o	@calculatedFrom( // @lengthOf(
+""\n"") `doc`, } // trailing space ")).
+Eval vm_compute in ("<<<M119>>>" ++ check (runes_of_ascii "packet
+Pad {
+@lengthOf(stringy)MetaDataX  @calculatedFrom(""" ++ [28040; 24687]%N ++ runes_of_ascii """ ) `{ , }` ,
+//x
+/// triple
+char[ 0123456789 ]leftPad @lengthOf( float
+), asx leftPad `u8 x,` ,
+    @calculatedFrom(""\" ++ [233]%N ++ runes_of_ascii """ )
+    repeat  rootA
+    matchKey `" ++ [28040; 24687; 31867; 22411]%N ++ runes_of_ascii "`, @lengthOf( stringy
+    ) /// triple
+uint8x msg_type `u8 x,`, // c
+char[ 3
+]
+stringy `tab	here`  ,
+}
+MetaData metadata{ string_ zchar , float32 u128	,
+char[]
+    //	t
+    u128//x
+,} options
+    // trailing space 
+    { zchar =""" ++ [28040; 24687]%N ++ runes_of_ascii """ ;
+msg_type = 007 ;	repeatCount = '\x00' ;	} packet
+_x { }  options
+{
+    asx
+=
+true;
+lengthOf =
+'0'  i8i8= '0'  crc =
+""abc""
+    /// triple
+    ; Packet
+// " ++ [128512]%N ++ runes_of_ascii " emoji
+// trailing space 
+= ' ' } // a // b")).
+Eval vm_compute in ("<<<M236>>>" ++ check (runes_of_ascii "MetaData As {  } packet float { // @lengthOf(
+options1  Pad `// not a comment` ,
+uint16 As `line1
+line2` ,float32 stringy@calculatedFrom(
+""`tick`""
+) `" ++ [233]%N ++ runes_of_ascii "` ,
+repeat Packet { zchar[ 3 ] T
+    @calculatedFrom(
+""x y""),  char[ 7 ]  asx @lengthOf( tag) ,
+    //
+    int64 charz `u8 x,`
+, } , uint32
+len , @tag(	0123456789
+) Foo packetx `// not a comment`,char[] trueish @lengthOf(
+rootA
+    ) , @leftPad (//
+'0'  ) repeat  x_y_z `{ , }` , i64 u128 ,
+    }
+    packet msg_type//x
+{
+char[]
+i8i8
+    `doc` //	t
+,string trueish @calculatedFrom(
+    """" ), char[ 7 ]/// triple
+string_// packet A { u8 x, }
+`say ""hi""`
+/// triple
+//
+,	}
+")).
+Eval vm_compute in ("<<<M13>>>" ++ check (runes_of_ascii "
+packet msg_type
+    // packet A { u8 x, }
+    {//	t
+string	packetx @lengthOf( charz )	, @calculatedFrom( """"  )
+repeat char[ 0123456789
+    ]
+    // c
+    int `it's` ,
+    @rightPad (// packet A { u8 x, }
+)
+@tag( 42 )
+    @calculatedFrom( ""`tick`""
+) repeat
+uint16
+falsey  `" ++ [233]%N ++ runes_of_ascii "`
+, i32 Foo , @tag(7 ) u64
+chars@lengthOf(  BodyLength ), i16
+    Z9_@lengthOf(/// triple
+a1 ) ,@lengthOf(leftPad ) lengthOf body ``	, @tag(
+    007 )
+char[
+    10 //x
+]
+_x
+// a // b
+// " ++ [27880; 37322]%N ++ runes_of_ascii "
+@lengthOf(
+    roots )	`
+` , // a // b
+@calculatedFrom(""a\\"" )
+    float64 //	t
+rootA`doc` , string T @calculatedFrom( """" ) , }")).
+Eval vm_compute in ("<<<M3996>>>" ++ check (runes_of_ascii "MetaData
+lengthOf
+{ }
+root
+packet 	 //x
+  falsey 
+
+    // " ++ [128512]%N ++ runes_of_ascii " emoji
+//x
+	  {	Pad // a // b
+		{zchar[
+1
+	]
+    Z9_  ,
+	msg_type 
+x_y_z
+
+    , match u8x as
+	trueish {
+    """ ++ [28040; 24687]%N ++ runes_of_ascii """ :asx
+	,  } , } 
+,  // `tick` ""quote"" 'q'
+  	@lengthOf(
+    rootA)
+    match
+
+zchar 
+as int
+{
+    ""`tick`"" 
+:len
+    ,
+""{,}"" :
+MetaDataX,
+	},i64
+rootA
+    //x
+
+`" ++ [28040; 24687; 31867; 22411]%N ++ runes_of_ascii "`	,	@calculatedFrom(
+
+    ""it's""
+	) 
+repeat  
+  /// triple
+  	metadata,
+T@lengthOf(
+u128)
+,uint64
+    Pad,// " ++ [27880; 37322]%N ++ runes_of_ascii "
+
+falsey	x , int16 leftPad  ,//	t
+	falsey@lengthOf( matchKey
+    ),zchar[  255 ]  u128  `u8 x,`
+    ,  }
+")).
+Eval vm_compute in ("<<<M4214>>>" ++ check (runes_of_ascii "packet
+tag
+
+{ 
+match
+	asx  as u128
+{
+
+    ""1""
+: T  0123456789// trailing space 
+
+	: 
+rootA
+
+    ,  7
+
+    :
+	i8i8
+	,  65535  :// `tick` ""quote"" 'q'
+    	chars,
+	}	, zchar[7
+]
+    options1 
+,
+	zchar[255
+
+    ] asx
+, @leftPad
+
+    (
+
+'0'
+
+    ) 
+stringy
+`" ++ [28040; 24687; 31867; 22411]%N ++ runes_of_ascii "`	,
+u64
+	zchar 
+@calculatedFrom( 
+  // c
+		""\n""
+	), 
+len
+
+// `tick` ""quote"" 'q'
+    // c
+	@calculatedFrom(  ""// no comment""
+)
+
+    `" ++ [28040; 24687; 31867; 22411]%N ++ runes_of_ascii "`	//	t
+    , 
+@leftPad
+
+( 
+'0'
+
+)  tag @lengthOf( calculatedFrom )
+
+,
+
+repeat 
+    //
+	  uint64
+    metadata `a\` ,
+    }
+")).
+Eval vm_compute in ("<<<M581>>>" ++ check (runes_of_ascii "// packet A { u8 x, }
+options{ // a // b
+} options
+    { matchKey = 00
+metadata =
+/// triple
+//
+float64 u8x// `tick` ""quote"" 'q'
+= 42
+    }
+packet
+    uint8x{
+    @lengthOf( matchKey
+)
+    float32 options1
+,
+@lengthOf( packetx ) repeat
+zchar[7 ]
+As ,@rightPad (
+)
+    // `tick` ""quote"" 'q'
+    uint64 repeatCount
+//	t
+// packet A { u8 x, }
+@lengthOf( leftPad	), @lengthOf( As
+) @leftPad(
+'\x00') // @lengthOf(
+Header options1, @lengthOf( // a // b
+packetx //
+) repeat
+    zchar[ 255
+    ] zchar `it's` , }
+")).
+Eval vm_compute in ("<<<M4408>>>" ++ check (runes_of_ascii "// `tick` ""quote"" 'q'
+options {
+    Pad = '0'
+}//
+
+packet zchar {
+    stringy {
+        match x as i64_ {
+            00 : len,
+            /// triple
+            ""`tick`"" : body,
+            3 : chars,
+            7 : uint8x,
+            0123456789 : Foo,
+        },
+        repeat chars i8i8,
+        float32 Logon @lengthOf(A) `tab	here`,
+    },
+}
+
+packet As {
+    @lengthOf(i64_)
+    repeat options1 {
+        a1 @calculatedFrom(""a\\""),
+    },
+    @calculatedFrom(""CRC32"")
+    matchKey,
+}")).
+Eval vm_compute in ("<<<M152>>>" ++ check (runes_of_ascii "
+options{	roots ='\x00' lengthOf
+=
+    true
+; Packet = // `tick` ""quote"" 'q'
+""packet"" ; o = // packet A { u8 x, }
+""packet"" ; A// " ++ [27880; 37322]%N ++ runes_of_ascii "
+=
+    //
+    true ; // trailing space 
+} packet body
+{ _x ,	zchar[
+65535
+]
+Header @calculatedFrom( // trailing space 
+""""  ) `u8 x,` , }
+root packet
+    //	t
+    T // trailing space 
+{ @tag(// trailing space 
+7) @tag( 0
+    )
+@leftPad( '0' )// a // b
+int64
+x @lengthOf( Packet )
+    , msg_type stringy
+`" ++ [28040; 24687; 31867; 22411]%N ++ runes_of_ascii "`/// triple
+, } /// triple")).
+Eval vm_compute in ("<<<M4599>>>" ++ check (runes_of_ascii "// @lengthOf(
+MetaData msg_type {
 }
 
 MetaData Logon {
-    char[] rootA,
+    i64 uint8x,
+    o u128,
 }
 
-packet int {
-    f32 falsey,
+packet body {
+    @calculatedFrom(""a	b"")
+    uint8x ``,
 }
 
-MetaData float {
-    len leftPad,
-    A Foo `tab	here`,
-    char[65535] T `line1
-        line2`,
+root packet roots {
+    repeat len f32a `crlf
+        line`,
+    @rightPad('\x00')
+    repeat i8i8 {
+        zchar @lengthOf(packetx) `a\`,
+        repeat msg_type,
+        char[] o `" ++ [233]%N ++ runes_of_ascii "`,
+        char[42] roots,
+        //x
+        // `tick` ""quote"" 'q'
+    },
 }
 
-options {
-    // " ++ [128512]%N ++ runes_of_ascii " emoji
-    // " ++ [27880; 37322]%N ++ runes_of_ascii "
-    float = '0';
-    float = true;
-    Foo = ""\n""
+MetaData pack {
+    repeatCount charz,
 }")).
-Eval vm_compute in ("<<<M701>>>" ++ check (runes_of_ascii "// a // b
-root	packet
-//x
-// `tick` ""quote"" 'q'
-f32a { } root packet  packetx { match x_y_z as	Logon{ // `tick` ""quote"" 'q'
-""" ++ [28040; 24687]%N ++ runes_of_ascii """
-    : Packet
-[ 7
-] // @lengthOf(
-:falsey
-,	""`tick`""
-: roots
-    ,	""packet"" : u128 , } ,match falsey as metadata
-{65535 :As
-,  ""a\""b""
-: crc,
-""\" ++ [233]%N ++ runes_of_ascii """
-: Logon
-    , } , u8x `two words` , @tag( 0 )Z9_,}
-// " ++ [128512]%N ++ runes_of_ascii " emoji
-// " ++ [128512]%N ++ runes_of_ascii " emoji
-options	{	options1 = false }")).
-Eval vm_compute in ("<<<M3782>>>" ++ check (runes_of_ascii "root packet As {
-    u {
-        tag a1,
-        repeat charz `a\`,
-    },
-    match float as u128 {
-        ""a\\"" : msg_type,
-        ""`tick`"" : packetx,
-    },
-    repeat char[255] falsey `two words`,
-    f32 packetx,
-    zchar[0] options1 `{ , }`,
-    repeat rootA `
-        `,
-}
+Eval vm_compute in ("<<<M349>>>" ++ check (runes_of_ascii "MetaData string_ {
+char[]
+Packet `
+`
+    , i8i8 A  ,
+string A
+`it's`
+,// trailing space 
+uint64 int
+, }
+// trailing space 
+// " ++ [27880; 37322]%N ++ runes_of_ascii "
+MetaData Z9_ { Header crc , // " ++ [27880; 37322]%N ++ runes_of_ascii "
+} MetaData T {// c
+float32 Z9_ `// not a comment`
+    , char[] /// triple
+uint8x`line1
+line2` ,
+Header u8x,
+char[ 3] a1	,
+    }MetaData Logon { a1 // " ++ [128512]%N ++ runes_of_ascii " emoji
+repeatCount `say ""hi""` , char[
+    42  ] Foo
+    ,
+    zchar[ 00
+    ] metadata
+,
+int16  zchar `it's` , }")).
+Eval vm_compute in ("<<<M4283>>>" ++ check (runes_of_ascii "packet
+	options1
 
-MetaData Header {
-    u32 Header ``,
+{ repeat	zchar[
+    7 
+]
+i8i8, _x
+
+    {zchar[ 65535]i8i8	@lengthOf(uint8x ),
+match x_y_z
+    as
+
+lengthOf  {	//x
+  [
+    00// " ++ [27880; 37322]%N ++ runes_of_ascii "
+	, 
+1  // " ++ [27880; 37322]%N ++ runes_of_ascii "
+    ,
+
+    10  , ""\" ++ [233]%N ++ runes_of_ascii """
+    ,
+42 ,00]
+    :Pad ,  [4294967296
+]:
+	asx 0123456789 
+:
+
+    x_y_z ,} 	 // trailing space 
+,zchar[
+
+0
+]
+    float ,
+
+}	,  int16
+	T
+@lengthOf(
+
+    charz
+
+    ) `` ,  }
+    MetaData
+pack
+{int64 	 //	t
+chars
+, }
+")).
+Eval vm_compute in ("<<<M328>>>" ++ check (runes_of_ascii "packet string_ { @lengthOf( int) BodyLength u8x,i64_ `tab	here`
+// " ++ [128512]%N ++ runes_of_ascii " emoji
+// @lengthOf(
+,char[  3 ] /// triple
+string_  ,repeat leftPad `" ++ [28040; 24687; 31867; 22411]%N ++ runes_of_ascii "`  ,
+repeat int32
+/// triple
+// `tick` ""quote"" 'q'
+BodyLength`u8 x,`, // `tick` ""quote"" 'q'
+@tag( 4294967296
+) BodyLength	`crlf
+line`
+    ,  msg_type Packet `" ++ [233]%N ++ runes_of_ascii "`
+    , float32 string_ // trailing space 
+@calculatedFrom(""""  )
+, asx int
+    `it's` , }
+")).
+Eval vm_compute in ("<<<M4370>>>" ++ check (runes_of_ascii "packet  leftPad
+
+{
+repeat
+
+string
+
+x , float
+	matchKey `u8 x,`	,repeat
+
+zchar[ 1 ]
+u8x
+`doc` ,@leftPad
+    (
+' '
+)
+	i8i8
+@lengthOf(
+
+rootA 
+)	// c
+
+  ,
+
+//	t
+// trailing space 
+
+int8 	 //
+      x
+
+    `doc` , 
+// c
+	// @lengthOf(
+      @tag(
+	1
+	)	@leftPad
+
+    (	'\x00' )
+
+    @lengthOf( // packet A { u8 x, }
+    _x )  char[]
+
+    x @calculatedFrom( """" 
+) 
+, 
+}
+")).
+Eval vm_compute in ("<<<M3655>>>" ++ check (runes_of_ascii "
+options 
+{
+FixedStringPadFromLeft	=true
+
+;
+FixedStringPadChar  =  ' ' ;
+}
+packet
+    Reject { } 
+packet
+Fill 
+{
+    repeat
+    i16
+Tail
+,
+} 
+root 
+packet Trade{
+float64
+Ref,
+Fill
+,  u8	Note,
+	u16	count
+
+@lengthOf(
+    Body),
+	match Note
+
+    as Body
+{ 
+[
+    98 ,	101 ]
+:Fill
+
+    , 34 :  Reject
+
+    ,  }, u32
+
+x  @calculatedFrom(""CRC32""  ), }
+")).
+Eval vm_compute in ("<<<M199>>>" ++ check (runes_of_ascii "
+root packet
+    tag { f64
+len ,
+char[
+    4294967296 ] A@calculatedFrom( """"  )`it's`, @tag( 65535
+    )
+match charz// a // b
+as tag	{
+    [ ""// no comment"" , """ ++ [128512]%N ++ runes_of_ascii """ ]:
+zchar	,
+    ""\n"":falsey  , },} packet float {f32a { repeat  packetx{
+    //x
+    char[ 255 ] int `it's`  ,} , uint32 x_y_z @lengthOf( pack ) // " ++ [27880; 37322]%N ++ runes_of_ascii "
+,}, } // `tick` ""quote"" 'q'")).
+Eval vm_compute in ("<<<M921>>>" ++ check (runes_of_ascii "options//x
+{ } // @lengthOf(
+root packet trueish {f32
+Logon @calculatedFrom( ""`tick`"" ) `
+` ,zchar[  0123456789 ]As @calculatedFrom( ""a	b"" ) ,
+chars
+    , char[] u128@lengthOf(
+a1)
+    `
+`// a // b
+,
+    @tag( 255 )
+repeat asx
+    ,
+} MetaData
+    lengthOf //
+{_x tag , float32 zchar , } options {As	= i64 ;} MetaData len {}
+")).
+Eval vm_compute in ("<<<M1936>>>" ++ check (runes_of_ascii "MetaData
+    u { }  options {
+// c
+// @lengthOf(
+float = int8 ;rootA =false ; As =	int16 int16 // `tick` ""quote"" 'q'
+repeatCount
+    // trailing space 
+    =
+    int16
+; u8x =
+    //	t
+    '\x00' ; } options	{
+    repeatCount
+= 0
+u128
+    //
+    = false ; i64_
+// trailing space 
+// `tick` ""quote"" 'q'
+= '0' ; //	t
+}
+")).
+Eval vm_compute in ("<<<M1861>>>" ++ check (runes_of_ascii "MetaData
+    u u { }  options {
+// c
+// @lengthOf(
+float = int8 ;rootA =false ; As =	int16 // `tick` ""quote"" 'q'
+repeatCount
+    // trailing space 
+    =
+    int16
+; u8x =
+    //	t
+    '\x00' ; } options	{
+    repeatCount
+= 0
+u128
+    //
+    = false ; i64_
+// trailing space 
+// `tick` ""quote"" 'q'
+= '0' ; //	t
+}
+")).
+Eval vm_compute in ("<<<M2073>>>" ++ check (runes_of_ascii "MetaData
+    u { }  options {
+// c
+// @lengthOf(
+float = int8 ;rootA =false ; As =	int16 // `tick` ""quote"" 'q'
+repeatCount
+    // trailing space 
+    =
+    int16
+; u8x =
+    //	t
+    '\x00' ; } options	{
+    repeatCount
+= 0
+caf" ++ [233]%N ++ runes_of_ascii "_1
+    //
+    = false ; i64_
+// trailing space 
+// `tick` ""quote"" 'q'
+= '0' ; //	t
+}
+")).
+Eval vm_compute in ("<<<M1927>>>" ++ check (runes_of_ascii "MetaData
+    u { }  options {
+// c
+// @lengthOf(
+float = int8 ;rootA =false ; = As	int16 // `tick` ""quote"" 'q'
+repeatCount
+    // trailing space 
+    =
+    int16
+; u8x =
+    //	t
+    '\x00' ; } options	{
+    repeatCount
+= 0
+u128
+    //
+    = false ; i64_
+// trailing space 
+// `tick` ""quote"" 'q'
+= '0' ; //	t
+}
+")).
+Eval vm_compute in ("<<<M4226>>>" ++ check (runes_of_ascii "packet pack {
+    u8 len,
+    @rightPad()
+    u64 A @calculatedFrom(""\n""),// trailing space 
+    @lengthOf(o)
+    @leftPad()
+    @leftPad()
+    int32 metadata,
+    matchKey,
 }
 
 MetaData matchKey {
-    msg_type Z9_,
+}
+
+packet rootA {
+}
+
+options {
+    A = zchar[65535]
+    float = 3
+    roots = 7
+    Pad = 10;
+    trueish = false;
 }")).
-Eval vm_compute in ("<<<M873>>>" ++ check (runes_of_ascii "root packet BodyLength { uint16
-As `crlf
-line`
-//	t
-// " ++ [128512]%N ++ runes_of_ascii " emoji
-,}packet A {
-@calculatedFrom(""{,}""/// triple
-)
-    f32 trueish`// not a comment` , // `tick` ""quote"" 'q'
+Eval vm_compute in ("<<<M3780>>>" ++ check (runes_of_ascii "// " ++ [128512]%N ++ runes_of_ascii " emoji
+packet u {
+    int `two words`,
 }
-packet i8i8 {zchar[ 007 ]leftPad,@tag(
-    10
-)  tag  @lengthOf( o )
-, float64
-    T
-, @calculatedFrom( // " ++ [27880; 37322]%N ++ runes_of_ascii "
-""a\""b"" )
-string uint8x@calculatedFrom( ""abc"")`two words` ,
+
+packet Packet {
+    repeat zchar Foo,
 }
-")).
-Eval vm_compute in ("<<<M771>>>" ++ check (runes_of_ascii "MetaData
-chars{ zchar[// " ++ [27880; 37322]%N ++ runes_of_ascii "
-3] As `say ""hi""` , }root packet lengthOf
-{
-//
-/// triple
-@rightPad( ' '
-// " ++ [27880; 37322]%N ++ runes_of_ascii "
-// @lengthOf(
-) f32 MetaDataX  @calculatedFrom( """"
-    )`{ , }` , match string_
-as // trailing space 
-x_y_z { 42
-: lengthOf,00  :chars ""// no comment"" : BodyLength , ""// no comment"":	tag ,255 : a1 ,
-""""	:
-stringy
-,
+
+packet f32a {
+    uint32 Packet `
+        `,
+    @lengthOf(msg_type)
+    @calculatedFrom(""it's"")
+    repeat repeatCount {
+        repeat zchar[255] u8x,
+        repeat MetaDataX `" ++ [28040; 24687; 31867; 22411]%N ++ runes_of_ascii "`,
+        int64 Pad `tab	here`,
     },
-    }
-")).
-Eval vm_compute in ("<<<M1221>>>" ++ check (runes_of_ascii "// trailing space 
-packet // " ++ [27880; 37322]%N ++ runes_of_ascii "
-pack {
-    @lengthOf( Pad )	char[]msg_type,
-}	options
-    {
-// " ++ [128512]%N ++ runes_of_ascii " emoji
-// " ++ [128512]%N ++ runes_of_ascii " emoji
-chars =int32 ;//
-chars
-    =	""CRC32"" }packet f32a
-{
-    @calculatedFrom( ""a\""b""
-    ) zchar
-    @lengthOf( o ) ,int32	o
-    , repeat
-int64 // packet A { u8 x, }
-zchar
-    // " ++ [128512]%N ++ runes_of_ascii " emoji
-    `" ++ [28040; 24687; 31867; 22411]%N ++ runes_of_ascii "`,} /// triple")).
-Eval vm_compute in ("<<<M2011>>>" ++ check (runes_of_ascii "MetaData
+}")).
+Eval vm_compute in ("<<<M1856>>>" ++ check (runes_of_ascii "
     u { }  options {
 // c
 // @lengthOf(
 float = int8 ;rootA =false ; As =	int16 // `tick` ""quote"" 'q'
-repeatCount
-    // trailing space 
-    =
-    int16
-; u8x =
-    //	t
-    '\x00' ; } options	{
-    repeatCount
-= 0
-u128 u128
-    //
-    = false ; i64_
-// trailing space 
-// `tick` ""quote"" 'q'
-= '0' ; //	t
-}
-")).
-Eval vm_compute in ("<<<M1948>>>" ++ check (runes_of_ascii "MetaData
-    u { }  options {
-// c
-// @lengthOf(
-float = int8 ;rootA =false ; As =	int16 // `tick` ""quote"" 'q'
-repeatCount
-    // trailing space 
-    007
-    int16
-; u8x =
-    //	t
-    '\x00' ; } options	{
-    repeatCount
-= 0
-u128
-    //
-    = false ; i64_
-// trailing space 
-// `tick` ""quote"" 'q'
-= '0' ; //	t
-}
-")).
-Eval vm_compute in ("<<<M2066>>>" ++ check (runes_of_ascii "MetaData
-    u { }  options {
-// c
-// @lengthOf(
-float = int8 ;rootA =false ; As =	int16 // `tick` ""quote"" 'q'
-repeatCount
-    // trailing space 
-    =
-    int16
-; u8x =
-    //	t
-    '\x00' ; } options	{
-    repeatCount
-= 0
-u128
-    //
- '   = false ; i64_
-// trailing space 
-// `tick` ""quote"" 'q'
-= '0' ; //	t
-}
-")).
-Eval vm_compute in ("<<<M1973>>>" ++ check (runes_of_ascii "MetaData
-    u { }  options {
-// c
-// @lengthOf(
-float = int8 ;rootA =false ; As =	int16 // `tick` ""quote"" 'q'
-repeatCount
-    // trailing space 
-    =
-    int16
-; u8x =
-    //	t
-    string ; } options	{
-    repeatCount
-= 0
-u128
-    //
-    = false ; i64_
-// trailing space 
-// `tick` ""quote"" 'q'
-= '0' ; //	t
-}
-")).
-Eval vm_compute in ("<<<M1965>>>" ++ check (runes_of_ascii "MetaData
-    u { }  options {
-// c
-// @lengthOf(
-float = int8 ;rootA =false ; As =	int16 // `tick` ""quote"" 'q'
-repeatCount
-    // trailing space 
-    =
-    int16
-; u8x 
-    //	t
-    '\x00' ; } options	{
-    repeatCount
-= 0
-u128
-    //
-    = false ; i64_
-// trailing space 
-// `tick` ""quote"" 'q'
-= '0' ; //	t
-}
-")).
-Eval vm_compute in ("<<<M1935>>>" ++ check (runes_of_ascii "MetaData
-    u { }  options {
-// c
-// @lengthOf(
-float = int8 ;rootA =false ; As =	 // `tick` ""quote"" 'q'
 repeatCount
     // trailing space 
     =
@@ -1764,191 +1882,139 @@ u128
 = '0' ; //	t
 }
 ")).
-Eval vm_compute in ("<<<M197>>>" ++ check (runes_of_ascii "packet	zchar { char[]  i64_,
-    // " ++ [128512]%N ++ runes_of_ascii " emoji
-    @calculatedFrom(	""// no comment"" ) match charz
-    as tag
-{ [""it's""
-, 4294967296
-    ,/// triple
-""a	b""
-    , """ ++ [28040; 24687]%N ++ runes_of_ascii """
-,""" ++ [128512]%N ++ runes_of_ascii """
-    ,  255 ,007 ] // packet A { u8 x, }
-: i64_
-, [	0123456789 ,3
-, 00 ]: // `tick` ""quote"" 'q'
-Packet , [ """ ++ [233]%N ++ runes_of_ascii "t" ++ [233]%N ++ runes_of_ascii """ ]
-:a1 ,	}
-,
-    }
-")).
-Eval vm_compute in ("<<<M3999>>>" ++ check (runes_of_ascii "
+Eval vm_compute in ("<<<M639>>>" ++ check (runes_of_ascii "
 packet
-trueish
-{body
-	Logon , }
+calculatedFrom {@lengthOf( Foo	) //
+@calculatedFrom( ""a\""b""
+)lengthOf Foo
+, int8 u8x, @calculatedFrom( """ ++ [28040; 24687]%N ++ runes_of_ascii """ )
+repeat // a // b
+options1 o `" ++ [28040; 24687; 31867; 22411]%N ++ runes_of_ascii "` ,
+    MetaDataX @lengthOf( Logon
+    // trailing space 
+    )
+, } options { crc =
+7 u8x =0 T = ""{,}""; metadata =
+    zchar[ 00
+    ]
+;} 	 ")).
+Eval vm_compute in ("<<<M4337>>>" ++ check (runes_of_ascii "  root
+
+    packet  i8i8
+    // `tick` ""quote"" 'q'
+    // packet A { u8 x, }
+{string 
+calculatedFrom  @calculatedFrom(""a	b""  //x
+)
+, @calculatedFrom(""abc""
+) // " ++ [27880; 37322]%N ++ runes_of_ascii "
+		int32
+float// " ++ [128512]%N ++ runes_of_ascii " emoji
+  ,  
+      //x
+    // a // b
+@calculatedFrom( ""a\""b"" 
+)
+    repeat u64
+    BodyLength  ,
+}")).
+Eval vm_compute in ("<<<M217>>>" ++ check (runes_of_ascii "options{ // " ++ [128512]%N ++ runes_of_ascii " emoji
+x =i8 BodyLength	=	'\x00'	;
+options1 // a // b
+=// c
+zchar[
+    42] ; msg_type = ""a	b""  x_y_z =// a // b
+int64
+; } //x
+options
+{ pack =
+""a\\""matchKey  =
+    true Packet =""abc"" //	t
+falsey =
+'\x00'
+; }  root packet charz { body
+    `doc` , } // c")).
+Eval vm_compute in ("<<<M3628>>>" ++ check (runes_of_ascii "  options{
+    StringPrefixLenType =
+u16
+; FixedStringPadChar
+=  ' ';
+
+} packet
+Party
+	{  }
 
     packet
-	len{
+	Quote
 
-    @leftPad ( '0'	// packet A { u8 x, }
-    ) 
-@rightPad
+    { repeat
+Party ,
+	repeat
+char[
 
-(
-
-    )
-
-repeat	calculatedFrom `u8 x,`
+2 
+]  f1
+	,
+	}
+packet  Logon
+{  }root
+packet Cancel  { uint16 
+x
 ,
-	repeatCount {  repeat
-    Logon
-	tag `u8 x,`, } // " ++ [128512]%N ++ runes_of_ascii " emoji
-  , repeat  char[
-65535]
-    Header
-`two words` ,
-float32
+	zchar[
 
-Pad, }
+    6
+    ]
 
+f1
+	,
+
+    }
 ")).
-Eval vm_compute in ("<<<M4055>>>" ++ check (runes_of_ascii "  options { trueish	=
-    f32; i8i8
-	= false
-BodyLength
-	= 
-  // " ++ [27880; 37322]%N ++ runes_of_ascii "
-
+Eval vm_compute in ("<<<M478>>>" ++ check (runes_of_ascii "
+packet	packetx{
+    @leftPad
+    /// triple
+    (
+'0' )	@lengthOf(  T ) @calculatedFrom( ""\" ++ [233]%N ++ runes_of_ascii """ )
+match i64_
+    as tag// " ++ [128512]%N ++ runes_of_ascii " emoji
+{
+    ""abc""// packet A { u8 x, }
+:Header , [7
+] :
+chars,	""a	b"" :	f32a , ""\" ++ [233]%N ++ runes_of_ascii """ :f32a ,	""CRC32"" : zchar , ""abc""  : Z9_, } , }
+")).
+Eval vm_compute in ("<<<M1560>>>" ++ check (runes_of_ascii "packet
 //	t
-float64	stringy  = string ;
-    Z9_
-=
-
-'\x00'
-
+// trailing space 
+_x {
+// packet A { u8 x, }
+// c
+char[
+3
+    ] u8x @lengthOf(
+u8x ) , @calculatedFrom(""" ++ [128512]%N ++ runes_of_ascii """ // @lengthOf(
+)
+false	Foo
+@lengthOf(	string_
+    )`doc`	, repeat	i64 metadata , @lengthOf( string_
+) i8 // c
+u  `line1
+line2`	,
 }
-
-    MetaData falsey
-
-{  pack
-
-rootA ,char[7 ]
-x_y_z
-`" ++ [233]%N ++ runes_of_ascii "`	,
-    uint32
-	string_,
-
-    float64//	t
-
-  lengthOf 	 // trailing space 
+")).
+Eval vm_compute in ("<<<M811>>>" ++ check (runes_of_ascii "packet trueish{ body Logon , }packet  len
+{ @leftPad ( '0' // packet A { u8 x, }
+) @rightPad ()repeat calculatedFrom`u8 x,`
+    ,repeatCount {repeat
+    Logon tag
+    `u8 x,`
 ,
-	int32 
-u ,
-
-}
+} // " ++ [128512]%N ++ runes_of_ascii " emoji
+, repeat  char[ 65535	] Header`two words` , float32 Pad, }
 ")).
-Eval vm_compute in ("<<<M491>>>" ++ check (runes_of_ascii "root packet
-    options1 {
-    // a // b
-    zchar[
-    // `tick` ""quote"" 'q'
-    1 ] a1 `u8 x,` ,
-    }MetaData calculatedFrom {}
-    root  packet i64_	{@tag( 10 ) @leftPad	( // c
-' '
-// a // b
-// a // b
-) int32 Packet@calculatedFrom( // packet A { u8 x, }
-""1"")
-,}
-")).
-Eval vm_compute in ("<<<M3604>>>" ++ check (runes_of_ascii "packet P1 {
-    u8 a,
-}
-packet P2 {
-    P1,
-}
-packet P3 {
-    P2,
-    P1,
-}
-packet P4 {
-    repeat P3,
-    P2,
-}
-root packet P5 {
-    P4,
-    P3,
-    P1,
-    u8 K,
-    match K as Body {
-        4 : P4,
-        3 : P3,
-        2 : P2,
-        1 : P1,
-    },
-}
-")).
-Eval vm_compute in ("<<<M1600>>>" ++ check (runes_of_ascii "packet
-//	t
-// trailing space 
-_x {
-// packet A { u8 x, }
-// c
-char[
-3
-    ] u8x @lengthOf(
-u8x ) , @calculatedFrom(""" ++ [128512]%N ++ runes_of_ascii """ // @lengthOf(
-)
-i16	Foo
-@lengthOf(	string_
-    )`doc`	, repeat	repeat metadata , @lengthOf( string_
-) i8 // c
-u  `line1
-line2`	,
-}
-")).
-Eval vm_compute in ("<<<M1659>>>" ++ check (runes_of_ascii "packet
-//	t
-// trailing space 
-_x {
-// packet A { u8 x, }
-// c
-char[
-3
-    ] u8x @lengthOf(
-u8x ) , @calculatedFrom(""" ++ [128512]%N ++ runes_of_ascii """ // @lengthOf(
-)
-i16	Foo
-@lengthOf(	string_
-    )`doc`	%, repeat	i64 metadata , @lengthOf( string_
-) i8 // c
-u  `line1
-line2`	,
-}
-")).
-Eval vm_compute in ("<<<M1579>>>" ++ check (runes_of_ascii "packet
-//	t
-// trailing space 
-_x {
-// packet A { u8 x, }
-// c
-char[
-3
-    ] u8x @lengthOf(
-u8x ) , @calculatedFrom(""" ++ [128512]%N ++ runes_of_ascii """ // @lengthOf(
-)
-i16	Foo
-@lengthOf(	string_
-    `doc`)	, repeat	i64 metadata , @lengthOf( string_
-) i8 // c
-u  `line1
-line2`	,
-}
-")).
-Eval vm_compute in ("<<<M1622>>>" ++ check (runes_of_ascii "packet
+Eval vm_compute in ("<<<M1624>>>" ++ check (runes_of_ascii "packet
 //	t
 // trailing space 
 _x {
@@ -1962,105 +2028,133 @@ u8x ) , @calculatedFrom(""" ++ [128512]%N ++ runes_of_ascii """ // @lengthOf(
 i16	Foo
 @lengthOf(	string_
     )`doc`	, repeat	i64 metadata , @lengthOf( string_
- i8 // c
+i8 ) // c
 u  `line1
 line2`	,
 }
 ")).
-Eval vm_compute in ("<<<M4570>>>" ++ check (runes_of_ascii "options {
-}
+Eval vm_compute in ("<<<M3673>>>" ++ check (runes_of_ascii "
 
-MetaData Foo {
-    char[0] Logon `u8 x,`,
-    zchar[255] calculatedFrom `
-    `,
-    zchar[00] o `u8 x,`,
-    char[255] Header `a\`,
-    Pad Pad,
-}
+  options
+    // @lengthOf(
 
-packet i8i8 {
-    u32 float,// @lengthOf(
-    As @calculatedFrom(""// no comment""),
-}")).
-Eval vm_compute in ("<<<M4206>>>" ++ check (runes_of_ascii "  packet
-	i64_
-	{ @tag(	// a // b
-  0123456789)	x_y_z
-@calculatedFrom(
+	{} root	packet 
 
-    ""it's"" )
-, 
-@rightPad( ' ')
+    // c
 
-    @tag(	007)leftPad 
-{  zchar[
+	falsey
 
-00
+{}  MetaData _x
+    {  }
+    packet
+	    // packet A { u8 x, }
+// trailing space 
+    o 
+    // " ++ [128512]%N ++ runes_of_ascii " emoji
+  {
+falsey  ,	@tag(  3	)// `tick` ""quote"" 'q'
+  uint8
 
-    ]
-Pad  , }
+    Foo
 ,
 
-    int32
-	_x
-	@lengthOf( BodyLength 
-      /// triple
-
-//
-
-  )
-
-,}
-")).
-Eval vm_compute in ("<<<M4240>>>" ++ check (runes_of_ascii "packet f32a {
-}
-
-MetaData x {
-    BodyLength zchar,
-}
-
-packet metadata {
-    @tag(7)
-    @lengthOf(uint8x)
-    body {
-        u8 Z9_ @calculatedFrom(""it's"") `u8 x,`,
-    },
-    float32 falsey @lengthOf(u) `line1
-        line2`,
-}")).
-Eval vm_compute in ("<<<M4176>>>" ++ check (runes_of_ascii "// top
-packet float {
-    // c2
-    repeat i8i8 MetaDataX `it's`,// c7
-    rootA,// c9
-    repeat int8 int,// c13
-    match repeatCount as x_y_z {
-        // c18
-        ""{,}"" : Logon,
-        // c22
-    },// c24
-}// c25")).
-Eval vm_compute in ("<<<M95>>>" ++ check (runes_of_ascii "packet len {
-@tag( 255  ) repeat // packet A { u8 x, }
-zchar[ 007] roots
-, leftPad { //	t
-f32 calculatedFrom , f32
-    lengthOf , u32 calculatedFrom , } ,
-x//	t
-x
-    ,} MetaData u128 {
-A i8i8 `two words` ,}
-")).
-Eval vm_compute in ("<<<M952>>>" ++ check (runes_of_ascii "
-packet roots{pack, @calculatedFrom( ""it's""
-)
-    MetaDataX @lengthOf( u
-) , @lengthOf(//x
-falsey  ) metadata _x	`doc` , } options{ BodyLength =	""" ++ [28040; 24687]%N ++ runes_of_ascii """; Packet = 0123456789 ; T=
-    ' ' ; T = 4294967296
-;
     }
+")).
+Eval vm_compute in ("<<<M2024>>>" ++ check (runes_of_ascii "MetaData
+    u { }  options {
+// c
+// @lengthOf(
+float = int8 ;rootA =false ; As =	int16 // `tick` ""quote"" 'q'
+repeatCount
+    // trailing space 
+    =
+    int16
+; u8x =
+    //	t
+    '\x00' ; } options	{
+    repeatCount
+= 0
+u128
+    //
+    =")).
+Eval vm_compute in ("<<<M686>>>" ++ check (runes_of_ascii "packet
+// a // b
+// packet A { u8 x, }
+matchKey { lengthOf	{ charz int
+// " ++ [128512]%N ++ runes_of_ascii " emoji
+// packet A { u8 x, }
+,
+match
+uint8x as A
+    // a // b
+    {
+    65535: rootA
+, } ,	repeat char[]
+    // a // b
+    T, }
+    , repeat charz  roots,	}
+")).
+Eval vm_compute in ("<<<M4243>>>" ++ check (runes_of_ascii "options {
+    trueish = f32;
+    i8i8 = false
+    BodyLength = float64
+    stringy = string;
+    Z9_ = '\x00'
+}
+
+MetaData falsey {
+    pack rootA,
+    char[7] x_y_z `" ++ [233]%N ++ runes_of_ascii "`,
+    uint32 string_,
+    float64 lengthOf,
+    int32 u,
+}")).
+Eval vm_compute in ("<<<M4071>>>" ++ check (runes_of_ascii "// top
+packet B {
+    // c2
+    u8 a,
+}// c6
+
+root packet P {
+    // c10
+    u8 K,// c13a
+    // c13b
+    u64 L @lengthOf(Body),
+    match K as Body {
+        1 : B,
+        // c28a
+        // c28b
+    },// c30
+}
+// c31")).
+Eval vm_compute in ("<<<M4532>>>" ++ check (runes_of_ascii "  packet u128{  @calculatedFrom(""a	b""	)
+	repeat
+uint8x
+u128`line1
+line2`
+    ,
+} packet
+string_ { @calculatedFrom(
+    // `tick` ""quote"" 'q'
+  // packet A { u8 x, }
+
+""" ++ [128512]%N ++ runes_of_ascii """
+)uint8 
+Pad	@lengthOf( 
+o)
+	`{ , }` ,
+} ")).
+Eval vm_compute in ("<<<M1850>>>" ++ check (runes_of_ascii "options { trueish = ""`tick`"" ; string_= """ ++ [233]%N ++ runes_of_ascii "t" ++ [233]%N ++ runes_of_ascii """
+    // c
+    } root
+    packet body { stringy @calculatedFrom(
+""a	b"" ) `line1
+line2` , }
+packet Logon {
+    @leftPa'\x01'd(
+    ' ' ) //	t
+u16 string_ `u8 x,` ,
+}
 ")).
 Eval vm_compute in ("<<<M1774>>>" ++ check (runes_of_ascii "options { trueish = ""`tick`"" ; string_= """ ++ [233]%N ++ runes_of_ascii "t" ++ [233]%N ++ runes_of_ascii """
     // c
@@ -2108,10 +2202,10 @@ packet Logon {
     @leftPad(
     ' ' ) //	t
 u16 string_ `u8 x,` ,")).
-Eval vm_compute in ("<<<M1701>>>" ++ check (runes_of_ascii "options { trueish = ""`tick`"" ; = """ ++ [233]%N ++ runes_of_ascii "t" ++ [233]%N ++ runes_of_ascii """
+Eval vm_compute in ("<<<M1741>>>" ++ check (runes_of_ascii "options { trueish = ""`tick`"" ; string_= """ ++ [233]%N ++ runes_of_ascii "t" ++ [233]%N ++ runes_of_ascii """
     // c
     } root
-    packet body { stringy @calculatedFrom(
+    packet body {  @calculatedFrom(
 ""a	b"" ) `line1
 line2` , }
 packet Logon {
@@ -2120,16 +2214,17 @@ packet Logon {
 u16 string_ `u8 x,` ,
 }
 ")).
-Eval vm_compute in ("<<<M879>>>" ++ check (runes_of_ascii "options	{ Foo =1	i64_ =char[]
-    /// triple
-    ; string_//
-=
-uint16 ;  chars = char[] ;//	t
-}root
-packet msg_type{ body, @calculatedFrom(// " ++ [27880; 37322]%N ++ runes_of_ascii "
-""packet"" ) repeat zchar[ 4294967296 ]	u128
-,
-}")).
+Eval vm_compute in ("<<<M1764>>>" ++ check (runes_of_ascii "options { trueish = ""`tick`"" ; string_= """ ++ [233]%N ++ runes_of_ascii "t" ++ [233]%N ++ runes_of_ascii """
+    // c
+    } root
+    packet body { stringy @calculatedFrom(
+""a	b"" ) , , }
+packet Logon {
+    @leftPad(
+    ' ' ) //	t
+u16 string_ `u8 x,` ,
+}
+")).
 Eval vm_compute in ("<<<M1111>>>" ++ check (runes_of_ascii "packet
 Pad { @leftPad
 () @lengthOf(float
@@ -2138,94 +2233,43 @@ Pad { @leftPad
 i64_ @lengthOf( msg_type ) , BodyLength	trueish,_x Logon ,
 } ,
 } //	t")).
-Eval vm_compute in ("<<<M671>>>" ++ check (runes_of_ascii "
-options {
-f32a= i32
-}options// trailing space 
-{
-    //x
-    roots
-=
-    """" float ='0' ;int =
-true x_y_z=' ' ;MetaDataX=// " ++ [128512]%N ++ runes_of_ascii " emoji
-false
-// packet A { u8 x, }
-// " ++ [128512]%N ++ runes_of_ascii " emoji
-;}
-")).
-Eval vm_compute in ("<<<M3945>>>" ++ check (runes_of_ascii "
-
-  packet A	{ match
-    k
-as 
-n {  [""a""
-
-    ,
-
-    ""bb""
-    ,""c c""
-,
-
-    ""d""
-,
-
-    ""e"",
-
-""f""
-	,
-""g"",
-
-    ""h""  ,
-
-    ""i"", ""j""
-]
-:B 2 : 
-C
-    } , 
+Eval vm_compute in ("<<<M441>>>" ++ check (runes_of_ascii "
+options { options1 =
+1// packet A { u8 x, }
+; } options
+{ A =00}MetaData
+repeatCount {
+char[]
+u8x	, char[] u128
+, body roots
+`" ++ [28040; 24687; 31867; 22411]%N ++ runes_of_ascii "`, msg_type As  ,
+} MetaData
+string_ {
 }
-
 ")).
-Eval vm_compute in ("<<<M1581>>>" ++ check (runes_of_ascii "packet
-//	t
-// trailing space 
-_x {
-// packet A { u8 x, }
-// c
-char[
-3
-    ] u8x @lengthOf(
-u8x ) , @calculatedFrom(""" ++ [128512]%N ++ runes_of_ascii """ // @lengthOf(
-)
-i16	Foo
-@lengthOf(	string_")).
-Eval vm_compute in ("<<<M2077>>>" ++ check (runes_of_ascii "options options{
-_x
-= true
-} options
-{ o	= /// triple
-false
-    ; chars
-= ""\n"" } root packet	Pad
-/// triple
-// packet A { u8 x, }
-{	chars
-    // a // b
-    ,}")).
-Eval vm_compute in ("<<<M2095>>>" ++ check (runes_of_ascii "options{
-_x
-= true true
-} options
-{ o	= /// triple
-false
-    ; chars
-= ""\n"" } root packet	Pad
-/// triple
-// packet A { u8 x, }
-{	chars
-    // a // b
-    ,}")).
-Eval vm_compute in ("<<<M2412>>>" ++ check (runes_of_ascii "// c
-packet x { { @lengthOf( metadata ) repeat lengthOf
+Eval vm_compute in ("<<<M4207>>>" ++ check (runes_of_ascii "MetaData T {
+    // c
+    //	t
+    trueish i64_ `" ++ [233]%N ++ runes_of_ascii "`,
+    f64 a1 `doc`,
+    int A,
+    u32 crc `" ++ [28040; 24687; 31867; 22411]%N ++ runes_of_ascii "`,
+    charz _x,
+    // trailing space 
+    char[255] msg_type `" ++ [28040; 24687; 31867; 22411]%N ++ runes_of_ascii "`,
+}")).
+Eval vm_compute in ("<<<M4528>>>" ++ check (runes_of_ascii "packet A {
+    match k as n {
+        [
+            1, ""bb"", 007, ""d"", 5,
+            ""f"", 7, ""h"", 9, ""j"",
+            11, ""l""
+        ] : B,
+        2 : C,
+    },
+}")).
+Eval vm_compute in ("<<<M2383>>>" ++ check (runes_of_ascii "// c
+packet x { @lengthOf( metadata ) repeat repeat lengthOf
 ,a1{
 trueish	,// c
 repeat//	t
@@ -2234,427 +2278,424 @@ MetaDataX , } , zchar[
 ,
     }
 ")).
-Eval vm_compute in ("<<<M2197>>>" ++ check (runes_of_ascii "options{
-_x
-= true
-} options
-{ o	= /// triple
-false
-    ; chars
-= ""\n"" } root packet	Pad
-/// triple
-// packet A { u8 x, }
-{	chars
-    // a // b
-    ," ++ [233]%N ++ runes_of_ascii " }")).
-Eval vm_compute in ("<<<M2193>>>" ++ check (runes_of_ascii "options{
-_x
-= true
-} options
-{ o	= /// triple
-false
-    ; chars
-" ++ [127]%N ++ runes_of_ascii "= ""\n"" } root packet	Pad
-/// triple
-// packet A { u8 x, }
-{	chars
-    // a // b
-    ,}")).
-Eval vm_compute in ("<<<M2132>>>" ++ check (runes_of_ascii "options{
-_x
-= true
-} options
-{ o	= /// triple
-false
-    ] chars
-= ""\n"" } root packet	Pad
-/// triple
-// packet A { u8 x, }
-{	chars
-    // a // b
-    ,}")).
-Eval vm_compute in ("<<<M2184>>>" ++ check (runes_of_ascii "options{
-_x
-= true
-} options
-{ o	= /// triple
-false
-    ; chars
-= ""\n"" } root packet	Pad
-/// triple
-// packet A { u8 x, }
-{	chars
-    // a // b
-    ,")).
-Eval vm_compute in ("<<<M2177>>>" ++ check (runes_of_ascii "options{
-_x
-= true
-} options
-{ o	= /// triple
-false
-    ; chars
-= ""\n"" } root packet	Pad
-/// triple
-// packet A { u8 x, }
-{	=
-    // a // b
-    ,}")).
-Eval vm_compute in ("<<<M130>>>" ++ check (runes_of_ascii "  packet x_y_z	{ @tag( // c
-00
-//x
-// packet A { u8 x, }
-)
-@tag(// " ++ [27880; 37322]%N ++ runes_of_ascii "
-7 ) @leftPad ( ) int16 _x @lengthOf( u ) `it's` // `tick` ""quote"" 'q'
-, }
+Eval vm_compute in ("<<<M1174>>>" ++ check (runes_of_ascii "packet  charz { // packet A { u8 x, }
+repeat len packetx  , }
+options{string_=false
+    ;crc=007
+; _x = ""a	b""
+// " ++ [128512]%N ++ runes_of_ascii " emoji
+// trailing space 
+;Z9_ = int16 }
 ")).
-Eval vm_compute in ("<<<M1320>>>" ++ check (runes_of_ascii "options { } root
-    packet Packet { Packet
-i8i8
-// `tick` ""quote"" 'q'
-/// triple
-`
-`,}
-    options { asx  ='\x00'; //
-} MetaData Packet
-{ }
-")).
-Eval vm_compute in ("<<<M104>>>" ++ check (runes_of_ascii "/// triple
-options  { Header = 65535
-    ; calculatedFrom =
-""x y"" trueish = true i8i8 = false metadata // trailing space 
-=	""" ++ [28040; 24687]%N ++ runes_of_ascii """ ;
-}
-")).
-Eval vm_compute in ("<<<M2183>>>" ++ check (runes_of_ascii "options{
-_x
-= true
-} options
-{ o	= /// triple
-false
-    ; chars
-= ""\n"" } root packet	Pad
-/// triple
-// packet A { u8 x, }
-{	chars")).
-Eval vm_compute in ("<<<M4295>>>" ++ check (runes_of_ascii "packet A {
-    u16 len @lengthOf(body) `a
-        b`,
-    u32 crc @calculatedFrom(""CRC32"") `a
-        b`,
-    string body,
-}")).
-Eval vm_compute in ("<<<M3715>>>" ++ check (runes_of_ascii "options {
-}
-
-options {
-    pack = false;
-    Z9_ = false;
-}
-
-packet Pad {
-}
-
-packet u8x {
-    repeat matchKey packetx,
-}//x")).
-Eval vm_compute in ("<<<M3317>>>" ++ check (runes_of_ascii "root packet matchKey
-// c
-{ zchar[ 3 ] pack @calculatedFrom( ""a	b"" ) `doc` , } options { } MetaData A { int8 msg_type , }")).
-Eval vm_compute in ("<<<M3349>>>" ++ check (runes_of_ascii "root packet matchKey { zchar[ 3 ] pack @calculatedFrom( ""a	b"" ) `doc` , } options { } MetaData A
-// c
-{ int8 msg_type , }")).
-Eval vm_compute in ("<<<M4347>>>" ++ check (runes_of_ascii "
-
-  root packet
-
-    string_  //	t
-	{@lengthOf(	o 
-) 
-@leftPad
-(
-
-) repeat
-
-char[
-	3 ] 
-rootA
-
+Eval vm_compute in ("<<<M2389>>>" ++ check (runes_of_ascii "// c
+packet x { @lengthOf( metadata ) repeat lengthOf
+,a1{
+trueish	,// c
+repeat//	t
+MetaDataX , } , zchar[
+    42	] ] rootA // `tick` ""quote"" 'q'
 ,
-
-}	// @lengthOf(
- 
+    }
 ")).
-Eval vm_compute in ("<<<M1449>>>" ++ check (runes_of_ascii "
-packet
-    falsey { Header@calculatedFrom(""packet""  ) , char[
-    0123456789 packetx ]
-    , } // `tick` ""quote"" 'q'")).
-Eval vm_compute in ("<<<M4474>>>" ++ check (runes_of_ascii "
-packet
-
-chars	{
-}  packet
-MetaDataX
-
-    {@tag(
-42
-
-)	i16  string_ ,repeat	x
-
-    `say ""hi""` 
-	// c
-    	,}
+Eval vm_compute in ("<<<M2120>>>" ++ check (runes_of_ascii "options{
+_x
+= true
+} options
+{ o	= = /// triple
+false
+    ; chars
+= ""\n"" } root packet	Pad
+/// triple
+// packet A { u8 x, }
+{	chars
+    // a // b
+    ,}")).
+Eval vm_compute in ("<<<M2182>>>" ++ check (runes_of_ascii "options{
+_x
+= true
+} options
+{ o	= /// triple
+false
+    ; chars
+= ""\n"" } root packet	Pad
+/// triple
+// packet A { u8 x, }
+{	chars
+    // a // b
+    i8}")).
+Eval vm_compute in ("<<<M2106>>>" ++ check (runes_of_ascii "options{
+_x
+= true
+} {
+options o	= /// triple
+false
+    ; chars
+= ""\n"" } root packet	Pad
+/// triple
+// packet A { u8 x, }
+{	chars
+    // a // b
+    ,}")).
+Eval vm_compute in ("<<<M2099>>>" ++ check (runes_of_ascii "options{
+_x
+= true
+ options
+{ o	= /// triple
+false
+    ; chars
+= ""\n"" } root packet	Pad
+/// triple
+// packet A { u8 x, }
+{	chars
+    // a // b
+    ,}")).
+Eval vm_compute in ("<<<M2391>>>" ++ check (runes_of_ascii "// c
+packet x { @lengthOf( metadata ) repeat lengthOf
+,a1{
+trueish	,// c
+repeat//	t
+" ++ [252]%N ++ runes_of_ascii "ber , } , zchar[
+    42	] rootA // `tick` ""quote"" 'q'
+,
+    }
+")).
+Eval vm_compute in ("<<<M1069>>>" ++ check (runes_of_ascii "MetaData  uint8x{  char[
+0
+    ]As	,	}
+MetaData	matchKey
+    // c
+    {
+    //x
+    Logon rootA//
+`{ , }`
+    ,  }packet Packet { string
+As
+,
+}
 
 ")).
-Eval vm_compute in ("<<<M1398>>>" ++ check (runes_of_ascii "
+Eval vm_compute in ("<<<M1314>>>" ++ check (runes_of_ascii "MetaData uint8x {
+    } packet i8i8{ // a // b
+repeat uint64 roots , string
+    falsey
+,// trailing space 
+} options  {
+repeatCount = 007 ; }
+")).
+Eval vm_compute in ("<<<M81>>>" ++ check (runes_of_ascii "
+root packet // `tick` ""quote"" 'q'
+rootA { @rightPad (
+) @leftPad(	) @lengthOf(  MetaDataX  )float// c
+u128`a\` , // `tick` ""quote"" 'q'
+}
+")).
+Eval vm_compute in ("<<<M986>>>" ++ check (runes_of_ascii "//x
+options { Header
+= char[];} MetaData
+    Z9_ { // @lengthOf(
+x_y_z Header `crlf
+line` ,
+// " ++ [27880; 37322]%N ++ runes_of_ascii "
+// " ++ [27880; 37322]%N ++ runes_of_ascii "
+string pack ,} options { }
+")).
+Eval vm_compute in ("<<<M3801>>>" ++ check (runes_of_ascii "root packet leftPad {
+    int64 BodyLength `// not a comment`,
+    @tag(0)
+    @leftPad()
+    @tag(255)
+    repeat Header,
+}// c")).
+Eval vm_compute in ("<<<M4307>>>" ++ check (runes_of_ascii "packet
+A  {  u16
+	len  @lengthOf( body	)
+    `
+x` ,
 
+u32 
+crc	@calculatedFrom(	""CRC32"" 
+)
+`
+x`
+
+    , string
+    body , }")).
+Eval vm_compute in ("<<<M3310>>>" ++ check (runes_of_ascii "// c
+root packet matchKey { zchar[ 3 ] pack @calculatedFrom( ""a	b"" ) `doc` , } options { } MetaData A { int8 msg_type , }")).
+Eval vm_compute in ("<<<M3343>>>" ++ check (runes_of_ascii "root packet matchKey { zchar[ 3 ] pack @calculatedFrom( ""a	b"" ) `doc` , } options {
+// c
+} MetaData A { int8 msg_type , }")).
+Eval vm_compute in ("<<<M1477>>>" ++ check (runes_of_ascii "
+packet
     falsey { Header@calculatedFrom(""packet""  ) , char[
     0123456789 ] packetx
+    " ++ [8232]%N ++ runes_of_ascii " , } // `tick` ""quote"" 'q'")).
+Eval vm_compute in ("<<<M1405>>>" ++ check (runes_of_ascii "
+packet
+    uint32 { Header@calculatedFrom(""packet""  ) , char[
+    0123456789 ] packetx
     , } // `tick` ""quote"" 'q'")).
-Eval vm_compute in ("<<<M2>>>" ++ check (runes_of_ascii "packet i8i8
-    {
-char[
-1
-] f32a@calculatedFrom(//	t
-""\n"" )
-    // packet A { u8 x, }
-    , repeat charz,}
+Eval vm_compute in ("<<<M2361>>>" ++ check (runes_of_ascii "// c
+packet x { @lengthOf( metadata ) repeat lengthOf
+,a1{
+trueish	,// c
+repeat//	t
+MetaDataX , } , zchar[
+    42	]")).
+Eval vm_compute in ("<<<M2977>>>" ++ check (runes_of_ascii "packet A {
+  match k as n {
+    [""a"", ""bb"", ""c c"", ""d"", ""e"", ""f"", ""g"", ""h"", ""i"", ""j"", ""k""] : B,
+    2 : C
+  },
+}")).
+Eval vm_compute in ("<<<M3671>>>" ++ check (runes_of_ascii "packet	chars	{}	// c
+    packet
+
+    MetaDataX	{@tag(
+    42
+    )
+	i16 
+string_
+,
+repeat
+x`say ""hi""`	,}
+
 ")).
-Eval vm_compute in ("<<<M3563>>>" ++ check (runes_of_ascii "options {
+Eval vm_compute in ("<<<M2986>>>" ++ check (runes_of_ascii "packet A {
+  match k as n {
+    [""a"", ""bb"", 007, ""d"", ""e"", 66, ""g"", ""h"", 9, ""j"", ""k""] : B
+    2 : C
+  },
+}")).
+Eval vm_compute in ("<<<M2982>>>" ++ check (runes_of_ascii "packet A {
+  match k as n {
+    [""a"", 22, ""c c"", 4, ""e"", 66, ""g"", 8, ""i"", 10, ""k""] : B
+    2 : C
+  },
+}")).
+Eval vm_compute in ("<<<M4018>>>" ++ check (runes_of_ascii "// packet A { u8 x, }
+options {
+    lengthOf = 255;/// triple
+}
+
+packet MetaDataX {
+    int32 body,
+}")).
+Eval vm_compute in ("<<<M642>>>" ++ check (runes_of_ascii "packet
+//	t
+//x
+As
+{ matchKey@lengthOf(string_)
+    , matchKey `say ""hi""`// packet A { u8 x, }
+,}")).
+Eval vm_compute in ("<<<M2989>>>" ++ check (runes_of_ascii "packet A {
+  match k as n {
+    [1, 22, 007, 4, 5, 66, 7, 8, 9, 10, 11, 12] : B
+    2 : C
+  },
+}")).
+Eval vm_compute in ("<<<M1465>>>" ++ check (runes_of_ascii "
+packet
+    falsey { Header@calculatedFrom(""packet""  ) , char[
+    0123456789 ] packetx
+    ,")).
+Eval vm_compute in ("<<<M2742>>>" ++ check (runes_of_ascii "zchar[ [ """" char[] match i32 @lengthOf( uint16 char[] @lengthOf( i64 @lengthOf( string int8")).
+Eval vm_compute in ("<<<M654>>>" ++ check (runes_of_ascii "options {Pad = ""a	b""
+    ;
+//
+// `tick` ""quote"" 'q'
+u
+= '\x00'
+;lengthOf
+= ' '
+    ; }
+")).
+Eval vm_compute in ("<<<M3291>>>" ++ check (runes_of_ascii "MetaData float { float64 charz `
+` , } root packet chars { // c
+@rightPad ( '0' ) Foo , }")).
+Eval vm_compute in ("<<<M3502>>>" ++ check (runes_of_ascii "packet chars { } packet MetaDataX { @tag( 42
+// c
+) i16 string_ , repeat x `say ""hi""` , }")).
+Eval vm_compute in ("<<<M2284>>>" ++ check (runes_of_ascii "options
+{ } options { BodyLength= u16 Header= f64 ; u128 =
+    true
+    i16 } // a // b")).
+Eval vm_compute in ("<<<M3170>>>" ++ check (runes_of_ascii "packet A { match k as n // a
+ { // b
+ 1 // c
+ : // d
+ B // e
+ , // f
+ } // g
+ , // h
+ }")).
+Eval vm_compute in ("<<<M2913>>>" ++ check (runes_of_ascii "packet A {
+  match k as n {
+    [""a"", ""bb"", ""c c"", ""d"", ""e"", ""f""] : B
+    2 : C
+  },
+}")).
+Eval vm_compute in ("<<<M3242>>>" ++ check (runes_of_ascii "packet metadata { Logon { A `" ++ [28040; 24687; 31867; 22411]%N ++ runes_of_ascii "` , tag o , } , zchar len
+// c
+`// not a comment` , }")).
+Eval vm_compute in ("<<<M3433>>>" ++ check (runes_of_ascii "packet o { // c
+repeat Logon uint8x , } options { asx = zchar[ 3 ] stringy = '\x00' }")).
+Eval vm_compute in ("<<<M3530>>>" ++ check (runes_of_ascii "options {
     LittleEndian = true;
 }
 root packet P {
-    u16 a,
-    u32 Sum @calculatedFrom(""CR\
-C32""),
+    repeat char cs,
+    u8 x,
 }
 ")).
-Eval vm_compute in ("<<<M3718>>>" ++ check (runes_of_ascii "
-
-  MetaData 
-body { 
-i64
-	pack
-`it's`
-    ,
-	}
-    packet // c
-	stringy 
-{  int16	calculatedFrom ,}
-")).
-Eval vm_compute in ("<<<M4090>>>" ++ check (runes_of_ascii "MetaData float {
-    float64 charz `
-        `,
-}
-
-root packet chars {
-    @rightPad('0')
-    Foo,
+Eval vm_compute in ("<<<M3050>>>" ++ check (runes_of_ascii "packet A {
+    u32 crc @calculatedFrom(""x\
+y""),
+    @calculatedFrom(""x\
+y"") u8 y,
 }")).
-Eval vm_compute in ("<<<M4034>>>" ++ check (runes_of_ascii "packet  o{repeat
-
-Logon
-	uint8x
-
-    ,	} // c
-	options{ 
-asx=
-	zchar[ 3 ]
-
-stringy = '\x00'  }")).
-Eval vm_compute in ("<<<M2209>>>" ++ check (runes_of_ascii "options options
-{ } options { BodyLength= u16 Header= f64 ; u128 =
-    true
-    ; } // a // b")).
-Eval vm_compute in ("<<<M4071>>>" ++ check (runes_of_ascii "/// triple
-  options{
-    Z9_	= 007	; 
-
-    // a // b
-  //
-	Pad =0123456789 u 
-= ""CRC32"" }
-
-")).
-Eval vm_compute in ("<<<M3519>>>" ++ check (runes_of_ascii "packet chars { } packet MetaDataX { @tag( 42 ) i16 string_ , repeat x `say ""hi""` , } // c
-")).
-Eval vm_compute in ("<<<M3285>>>" ++ check (runes_of_ascii "MetaData float { float64 charz `
-` , } root // c
-packet chars { @rightPad ( '0' ) Foo , }")).
-Eval vm_compute in ("<<<M3496>>>" ++ check (runes_of_ascii "packet chars { } packet MetaDataX
+Eval vm_compute in ("<<<M3408>>>" ++ check (runes_of_ascii "MetaData body { i64 pack `it's` , } // c
+packet stringy { int16 calculatedFrom , }")).
+Eval vm_compute in ("<<<M4031>>>" ++ check (runes_of_ascii "packet A {
+    match k as n {
+        [1, ""bb"", 007] : B,
+        2 : C,
+    },
+}")).
+Eval vm_compute in ("<<<M768>>>" ++ check (runes_of_ascii "// " ++ [27880; 37322]%N ++ runes_of_ascii "
+options
+{ u8x  = zchar[0
+] ; len
+    =
+    ' ';
+    leftPad =false;
+} 	 ")).
+Eval vm_compute in ("<<<M1924>>>" ++ check (runes_of_ascii "MetaData
+    u { }  options {
 // c
-{ @tag( 42 ) i16 string_ , repeat x `say ""hi""` , }")).
-Eval vm_compute in ("<<<M2237>>>" ++ check (runes_of_ascii "options
-{ } options { BodyLength= = u16 Header= f64 ; u128 =
-    true
-    ; } // a // b")).
-Eval vm_compute in ("<<<M2305>>>" ++ check (runes_of_ascii "options
-{ } options { BodyLength= u16~ Header= f64 ; u128 =
-    true
-    ; } // a // b")).
-Eval vm_compute in ("<<<M2248>>>" ++ check (runes_of_ascii "options
-{ } options { BodyLength= u16 =Header f64 ; u128 =
-    true
-    ; } // a // b")).
-Eval vm_compute in ("<<<M3235>>>" ++ check (runes_of_ascii "packet metadata { Logon { A `" ++ [28040; 24687; 31867; 22411]%N ++ runes_of_ascii "` , tag o , } // c
-, zchar len `// not a comment` , }")).
-Eval vm_compute in ("<<<M2286>>>" ++ check (runes_of_ascii "options
-{ } options { BodyLength= u16 Header= f64 ; u128 =
-    true
-    ;  // a // b")).
-Eval vm_compute in ("<<<M3455>>>" ++ check (runes_of_ascii "packet o { repeat Logon uint8x , } options { asx = zchar[ 3 // c
-] stringy = '\x00' }")).
-Eval vm_compute in ("<<<M1105>>>" ++ check (runes_of_ascii "  packet
-    //	t
-    lengthOf
-{ @tag( 3
-)	@lengthOf( lengthOf )u64  options1 , }")).
-Eval vm_compute in ("<<<M3400>>>" ++ check (runes_of_ascii "MetaData body { i64 // c
-pack `it's` , } packet stringy { int16 calculatedFrom , }")).
-Eval vm_compute in ("<<<M2932>>>" ++ check (runes_of_ascii "packet A {
-  match k as n {
-    [1, 22, ""c c"", 4, 5, ""f"", 7] : B
-    2 : C
-  },
-}")).
-Eval vm_compute in ("<<<M3671>>>" ++ check (runes_of_ascii "
-packet 
-	// a // b
-
-matchKey
-
-    {
-@tag(//
-	0 
-)
-repeat
-u
-
-    ,
-
-}
-")).
-Eval vm_compute in ("<<<M2894>>>" ++ check (runes_of_ascii "packet A {
-  match k as n {
-    [""a"", ""bb"", 007, ""d""] : B,
-    2 : C
-  },
-}")).
-Eval vm_compute in ("<<<M2839>>>" ++ check (runes_of_ascii "false false char char[ root repeat ""`tick`"" [ MetaData { int32 '0' char[")).
-Eval vm_compute in ("<<<M231>>>" ++ check (runes_of_ascii "MetaData/// triple
-float {	f64
-    // trailing space 
-    u8x
-`
-` ,	}")).
-Eval vm_compute in ("<<<M3564>>>" ++ check (runes_of_ascii "root packet P {
-    u16 a,
-    u32 Sum @calculatedFrom(""CRC32""),
-}
-")).
-Eval vm_compute in ("<<<M2143>>>" ++ check (runes_of_ascii "options{
+// @lengthOf(
+float = int8 ;rootA =false")).
+Eval vm_compute in ("<<<M2153>>>" ++ check (runes_of_ascii "options{
 _x
 = true
 } options
 { o	= /// triple
 false
-    ; chars")).
-Eval vm_compute in ("<<<M1077>>>" ++ check (runes_of_ascii "options {
-Logon
-= true
-    msg_type
-= '\x00' ;
-T =
-int16 }
-")).
-Eval vm_compute in ("<<<M2859>>>" ++ check (runes_of_ascii "packet A {
+    ; chars
+= ""\n""")).
+Eval vm_compute in ("<<<M2881>>>" ++ check (runes_of_ascii "packet A {
   match k as n {
-    [""a""] : B,
+    [""a"", ""bb"", 007] : B,
     2 : C
   },
 }")).
-Eval vm_compute in ("<<<M3375>>>" ++ check (runes_of_ascii "packet x { @rightPad ( ) // c
-repeat roots Logon `doc` , }")).
-Eval vm_compute in ("<<<M195>>>" ++ check (runes_of_ascii "packet i8i8// a // b
-{ a1`{ , }` ,
-// a // b
-// " ++ [27880; 37322]%N ++ runes_of_ascii "
-} //x")).
-Eval vm_compute in ("<<<M3694>>>" ++ check (runes_of_ascii "
-MetaData
+Eval vm_compute in ("<<<M2148>>>" ++ check (runes_of_ascii "options{
+_x
+= true
+} options
+{ o	= /// triple
+false
+    ; chars
+=")).
+Eval vm_compute in ("<<<M4118>>>" ++ check (runes_of_ascii "
+root packet
+    P
+	{
+repeat string ss ,
 
-    M	{
-	} // c
-  MetaData
-	N
-{	}  // d
+    repeat	u16 ns,}
 ")).
-Eval vm_compute in ("<<<M4316>>>" ++ check (runes_of_ascii "
-MetaData
-    M{ u8 x`a
-b`
-    ,
-	T t`a
-b` ,
-	} ")).
-Eval vm_compute in ("<<<M3846>>>" ++ check (runes_of_ascii "MetaData int {
-    string f32a `two words`,
-}//")).
-Eval vm_compute in ("<<<M3692>>>" ++ check (runes_of_ascii "/// triple
-MetaData zchar {
-    int32 pack,
-}")).
-Eval vm_compute in ("<<<M4433>>>" ++ check (runes_of_ascii "
-root
-
-    packet
-	    // c
-	  pack {	}")).
-Eval vm_compute in ("<<<M2610>>>" ++ check (runes_of_ascii "packet A { match k as n { [1 2] : B }, }")).
-Eval vm_compute in ("<<<M2792>>>" ++ check (runes_of_ascii "&b}S=WnA*Kztkm]4ju&E{0O4$QB[x]{2&jMd""VW")).
-Eval vm_compute in ("<<<M4428>>>" ++ check (runes_of_ascii "packet A {
-    u8 x `a
-    
-    b`,
-}")).
-Eval vm_compute in ("<<<M2642>>>" ++ check (runes_of_ascii "root packet A { } root packet B { }")).
-Eval vm_compute in ("<<<M4077>>>" ++ check (runes_of_ascii "
+Eval vm_compute in ("<<<M302>>>" ++ check (runes_of_ascii "
 packet
-	A {
+    // a // b
+    matchKey{ @tag(//
+0 ) repeat u ,}
 
-    }
-    // c" ++ [8287]%N ++ runes_of_ascii "
 ")).
-Eval vm_compute in ("<<<M2740>>>" ++ check ([65533]%N ++ runes_of_ascii "O" ++ [65533; 65533]%N ++ runes_of_ascii "w" ++ [19; 65533; 65533]%N ++ runes_of_ascii "o" ++ [65533; 18]%N ++ runes_of_ascii "/" ++ [65533]%N ++ runes_of_ascii "\i" ++ [65533; 65533; 21; 65533; 65533; 26; 65533; 65533]%N ++ runes_of_ascii "zs" ++ [127; 65533; 29]%N ++ runes_of_ascii "?=%A")).
-Eval vm_compute in ("<<<M2603>>>" ++ check (runes_of_ascii "packet A { match k as n { }, }")).
-Eval vm_compute in ("<<<M2446>>>" ++ check (runes_of_ascii "f32 f64 float32 float64 float")).
-Eval vm_compute in ("<<<M2699>>>" ++ check (runes_of_ascii "9fg42cfm:PE.""_7ZnAcePs7rsPF")).
-Eval vm_compute in ("<<<M11>>>" ++ check (runes_of_ascii "options { falsey
-= false}")).
-Eval vm_compute in ("<<<M2597>>>" ++ check (runes_of_ascii "packet A { B { u8 x, } }")).
-Eval vm_compute in ("<<<M2815>>>" ++ check (runes_of_ascii "int64 uint32 u16 false")).
-Eval vm_compute in ("<<<M2698>>>" ++ check ([65533]%N ++ runes_of_ascii "#" ++ [3; 7]%N ++ runes_of_ascii ">" ++ [65533]%N ++ runes_of_ascii "iS" ++ [22; 65533; 65533; 65533; 65533; 65533]%N ++ runes_of_ascii "UsV" ++ [24; 65533; 65533]%N)).
-Eval vm_compute in ("<<<M2819>>>" ++ check (runes_of_ascii "uint64 , options1 (")).
-Eval vm_compute in ("<<<M3061>>>" ++ check (runes_of_ascii "// c 
-packet A {
+Eval vm_compute in ("<<<M142>>>" ++ check (runes_of_ascii "options // `tick` ""quote"" 'q'
+{ repeatCount = 3/// triple
 }")).
-Eval vm_compute in ("<<<M3143>>>" ++ check (runes_of_ascii "packet A {
-}// c x")).
-Eval vm_compute in ("<<<M3113>>>" ++ check (runes_of_ascii "packet A {
-}// c" ++ [11]%N)).
-Eval vm_compute in ("<<<M2853>>>" ++ check (runes_of_ascii "X788AH5itKe=;k[")).
-Eval vm_compute in ("<<<M1179>>>" ++ check (runes_of_ascii "/// triple
+Eval vm_compute in ("<<<M3367>>>" ++ check (runes_of_ascii "packet x // c
+{ @rightPad ( ) repeat roots Logon `doc` , }")).
+Eval vm_compute in ("<<<M3832>>>" ++ check (runes_of_ascii "root packet A {
+    u8 x `a
+            b
+          c`,
+}")).
+Eval vm_compute in ("<<<M585>>>" ++ check (runes_of_ascii "options {MetaDataX =
+// `tick` ""quote"" 'q'
+//	t
+0; }
+")).
+Eval vm_compute in ("<<<M226>>>" ++ check (runes_of_ascii "MetaData trueish { u64// trailing space 
+i8i8 , }")).
+Eval vm_compute in ("<<<M4054>>>" ++ check (runes_of_ascii "
+root
+packet
 
+u128 
+{ 
+chars// c
+
+	`it's`,
+	} ")).
+Eval vm_compute in ("<<<M3005>>>" ++ check (runes_of_ascii "MetaData M {
+    u8 x `a
+b`,
+    T t `a
+b`,
+}")).
+Eval vm_compute in ("<<<M1265>>>" ++ check (runes_of_ascii "  options //
+{ u8x
+=
+    zchar[ 0  ]
+    }")).
+Eval vm_compute in ("<<<M3189>>>" ++ check (runes_of_ascii "root // c
+packet u128 { chars `it's` , }")).
+Eval vm_compute in ("<<<M4296>>>" ++ check (runes_of_ascii "//x
+MetaData falsey {
+    string Pad,
+}")).
+Eval vm_compute in ("<<<M2616>>>" ++ check (runes_of_ascii "packet A { match k as n { x : B }, }")).
+Eval vm_compute in ("<<<M2812>>>" ++ check (runes_of_ascii "i64 @lengthOf( `// not a comment` (")).
+Eval vm_compute in ("<<<M2240>>>" ++ check (runes_of_ascii "options
+{ } options { BodyLength")).
+Eval vm_compute in ("<<<M4094>>>" ++ check (runes_of_ascii "
+root
+packet
+	i64_
+
+    {
+}
+")).
+Eval vm_compute in ("<<<M2810>>>" ++ check (runes_of_ascii "X{aZG^\F}_#)~""*yZ&5,]=E;#],:0N")).
+Eval vm_compute in ("<<<M3025>>>" ++ check (runes_of_ascii "packet A {
+    u8 x `a
+
+b`,
+}")).
+Eval vm_compute in ("<<<M2748>>>" ++ check (runes_of_ascii "L" ++ [1964; 65533; 65533]%N ++ runes_of_ascii "@" ++ [65533; 1940; 24]%N ++ runes_of_ascii "C" ++ [65533]%N ++ runes_of_ascii "e" ++ [65533]%N ++ runes_of_ascii "|=" ++ [65533; 65533; 820; 65533]%N ++ runes_of_ascii "d" ++ [65533]%N ++ runes_of_ascii "#" ++ [65533; 16]%N ++ runes_of_ascii "M" ++ [65533]%N ++ runes_of_ascii "p^")).
+Eval vm_compute in ("<<<M108>>>" ++ check (runes_of_ascii "packet  o {  } // " ++ [128512]%N ++ runes_of_ascii " emoji")).
+Eval vm_compute in ("<<<M1062>>>" ++ check (runes_of_ascii "MetaData
+f32a {	A x , }")).
+Eval vm_compute in ("<<<M2235>>>" ++ check (runes_of_ascii "options
+{ } options {")).
+Eval vm_compute in ("<<<M1227>>>" ++ check (runes_of_ascii "root packet i64_{	}
+")).
+Eval vm_compute in ("<<<M2596>>>" ++ check (runes_of_ascii "packet A { B { }, }")).
+Eval vm_compute in ("<<<M2775>>>" ++ check ([16]%N ++ runes_of_ascii "t" ++ [65533; 65533; 65533]%N ++ runes_of_ascii "N" ++ [65533; 65533]%N ++ runes_of_ascii "c" ++ [65533; 2]%N ++ runes_of_ascii "Y" ++ [65533]%N ++ runes_of_ascii "M+" ++ [65533; 65533]%N)).
+Eval vm_compute in ("<<<M3140>>>" ++ check (runes_of_ascii "packet A {
+}
+// c" ++ [6158]%N)).
+Eval vm_compute in ("<<<M3108>>>" ++ check (runes_of_ascii "packet A {
+}// c" ++ [8287]%N)).
+Eval vm_compute in ("<<<M2567>>>" ++ check (runes_of_ascii "packet A { u8 }")).
+Eval vm_compute in ("<<<M958>>>" ++ check (runes_of_ascii "options	{ }
 ")).
 Eval vm_compute in ("<<<M2637>>>" ++ check (runes_of_ascii "packet A }")).
-Eval vm_compute in ("<<<M132>>>" ++ check (runes_of_ascii "
-
-// c
-")).
-Eval vm_compute in ("<<<M2463>>>" ++ check (runes_of_ascii "repeat")).
-Eval vm_compute in ("<<<M2514>>>" ++ check (runes_of_ascii """ab""")).
-Eval vm_compute in ("<<<M2479>>>" ++ check (runes_of_ascii "'  '")).
-Eval vm_compute in ("<<<M2500>>>" ++ check (runes_of_ascii "///")).
-Eval vm_compute in ("<<<M2478>>>" ++ check (runes_of_ascii "'0")).
-Eval vm_compute in ("<<<M2681>>>" ++ check (runes_of_ascii " ")).
+Eval vm_compute in ("<<<M1680>>>" ++ check (runes_of_ascii "options")).
+Eval vm_compute in ("<<<M2744>>>" ++ check ([65533]%N ++ runes_of_ascii ")i}" ++ [65533]%N ++ runes_of_ascii ")")).
+Eval vm_compute in ("<<<M3074>>>" ++ check (runes_of_ascii "// c" ++ [133]%N)).
+Eval vm_compute in ("<<<M2526>>>" ++ check (runes_of_ascii "12ab")).
+Eval vm_compute in ("<<<M2533>>>" ++ check (runes_of_ascii "a.b")).
+Eval vm_compute in ("<<<M2537>>>" ++ check (runes_of_ascii "_1")).
